@@ -287,5 +287,1813 @@ Proof. prj. Qed.
 Lemma drain_h_closes (s : hstate) (k : nat) : h_closes (drain k s) = h_closes s.
 Proof. prj. Qed.
 #[export] Hint Rewrite drain_h_closes : hdb.
-Lemma drain_h_rt' (s : hstate) (k : nat) : h_rt (drain k s) = h_rt s.
+Lemma drain_h_rt (s : hstate) (k : nat) : h_rt (drain k s) = h_rt s.
 Proof. unfold drain; cbn. destruct (h_rt s); reflexivity. Qed.
+#[export] Hint Rewrite drain_h_rt : hdb.
+Lemma drain_h_pending (s : hstate) (k : nat) : h_pending (drain k s) = h_pending s - k.
+Proof. reflexivity. Qed.
+#[export] Hint Rewrite drain_h_pending : hdb.
+
+(* ------------------------------------------------------------------ *)
+(* received_all / emit_all frames; one-round step of finalize           *)
+(* ------------------------------------------------------------------ *)
+Definition set_hashes (s : hstate) (hs : list (nat * N)) : hstate :=
+  mkH (h_self s) (h_n s) (h_ssid s) (h_proto s) (h_shape s) (h_cur s) (h_reached s)
+      (h_qb s) (h_qp s) hs (h_err s) (h_res s) (h_out s) (h_pending s) (h_closes s) (h_rt s).
+
+Lemma set_hashes_same s : set_hashes s (h_hashes s) = s.
+Proof. destruct s; reflexivity. Qed.
+
+Ltac dmin :=
+  repeat match goal with
+         | |- context [match ?x with _ => _ end] =>
+             lazymatch x with
+             | context [match _ with _ => _ end] => fail
+             | _ => destruct x eqn:?
+             end
+         end.
+
+Lemma received_all_frame vh s : exists hs, snd (received_all vh s) = set_hashes s hs.
+Proof.
+  unfold received_all.
+  dmin; cbn [snd]; try (exists (h_hashes s); symmetry; apply set_hashes_same);
+    eexists; unfold set_hashes; reflexivity.
+Qed.
+
+Lemma ra_h_self vh s : h_self (snd (received_all vh s)) = h_self s.
+Proof. destruct (received_all_frame vh s) as [hs ->]; reflexivity. Qed.
+#[export] Hint Rewrite ra_h_self : hdb.
+Lemma ra_h_n vh s : h_n (snd (received_all vh s)) = h_n s.
+Proof. destruct (received_all_frame vh s) as [hs ->]; reflexivity. Qed.
+#[export] Hint Rewrite ra_h_n : hdb.
+Lemma ra_h_ssid vh s : h_ssid (snd (received_all vh s)) = h_ssid s.
+Proof. destruct (received_all_frame vh s) as [hs ->]; reflexivity. Qed.
+#[export] Hint Rewrite ra_h_ssid : hdb.
+Lemma ra_h_proto vh s : h_proto (snd (received_all vh s)) = h_proto s.
+Proof. destruct (received_all_frame vh s) as [hs ->]; reflexivity. Qed.
+#[export] Hint Rewrite ra_h_proto : hdb.
+Lemma ra_h_shape vh s : h_shape (snd (received_all vh s)) = h_shape s.
+Proof. destruct (received_all_frame vh s) as [hs ->]; reflexivity. Qed.
+#[export] Hint Rewrite ra_h_shape : hdb.
+Lemma ra_h_cur vh s : h_cur (snd (received_all vh s)) = h_cur s.
+Proof. destruct (received_all_frame vh s) as [hs ->]; reflexivity. Qed.
+#[export] Hint Rewrite ra_h_cur : hdb.
+Lemma ra_h_reached vh s : h_reached (snd (received_all vh s)) = h_reached s.
+Proof. destruct (received_all_frame vh s) as [hs ->]; reflexivity. Qed.
+#[export] Hint Rewrite ra_h_reached : hdb.
+Lemma ra_h_qb vh s : h_qb (snd (received_all vh s)) = h_qb s.
+Proof. destruct (received_all_frame vh s) as [hs ->]; reflexivity. Qed.
+#[export] Hint Rewrite ra_h_qb : hdb.
+Lemma ra_h_qp vh s : h_qp (snd (received_all vh s)) = h_qp s.
+Proof. destruct (received_all_frame vh s) as [hs ->]; reflexivity. Qed.
+#[export] Hint Rewrite ra_h_qp : hdb.
+Lemma ra_h_err vh s : h_err (snd (received_all vh s)) = h_err s.
+Proof. destruct (received_all_frame vh s) as [hs ->]; reflexivity. Qed.
+#[export] Hint Rewrite ra_h_err : hdb.
+Lemma ra_h_res vh s : h_res (snd (received_all vh s)) = h_res s.
+Proof. destruct (received_all_frame vh s) as [hs ->]; reflexivity. Qed.
+#[export] Hint Rewrite ra_h_res : hdb.
+Lemma ra_h_out vh s : h_out (snd (received_all vh s)) = h_out s.
+Proof. destruct (received_all_frame vh s) as [hs ->]; reflexivity. Qed.
+#[export] Hint Rewrite ra_h_out : hdb.
+Lemma ra_h_pending vh s : h_pending (snd (received_all vh s)) = h_pending s.
+Proof. destruct (received_all_frame vh s) as [hs ->]; reflexivity. Qed.
+#[export] Hint Rewrite ra_h_pending : hdb.
+Lemma ra_h_closes vh s : h_closes (snd (received_all vh s)) = h_closes s.
+Proof. destruct (received_all_frame vh s) as [hs ->]; reflexivity. Qed.
+#[export] Hint Rewrite ra_h_closes : hdb.
+Lemma ra_h_rt vh s : h_rt (snd (received_all vh s)) = h_rt s.
+Proof. destruct (received_all_frame vh s) as [hs ->]; reflexivity. Qed.
+#[export] Hint Rewrite ra_h_rt : hdb.
+Lemma emit_all_h_self ofp l : forall s, h_self (emit_all ofp s l) = h_self s.
+Proof.
+  induction l as [|o l IH]; intro s; cbn [emit_all]; [reflexivity|].
+  rewrite IH. destruct (o_bcast o); autorewrite with hdb; reflexivity.
+Qed.
+#[export] Hint Rewrite emit_all_h_self : hdb.
+Lemma emit_all_h_n ofp l : forall s, h_n (emit_all ofp s l) = h_n s.
+Proof.
+  induction l as [|o l IH]; intro s; cbn [emit_all]; [reflexivity|].
+  rewrite IH. destruct (o_bcast o); autorewrite with hdb; reflexivity.
+Qed.
+#[export] Hint Rewrite emit_all_h_n : hdb.
+Lemma emit_all_h_ssid ofp l : forall s, h_ssid (emit_all ofp s l) = h_ssid s.
+Proof.
+  induction l as [|o l IH]; intro s; cbn [emit_all]; [reflexivity|].
+  rewrite IH. destruct (o_bcast o); autorewrite with hdb; reflexivity.
+Qed.
+#[export] Hint Rewrite emit_all_h_ssid : hdb.
+Lemma emit_all_h_proto ofp l : forall s, h_proto (emit_all ofp s l) = h_proto s.
+Proof.
+  induction l as [|o l IH]; intro s; cbn [emit_all]; [reflexivity|].
+  rewrite IH. destruct (o_bcast o); autorewrite with hdb; reflexivity.
+Qed.
+#[export] Hint Rewrite emit_all_h_proto : hdb.
+Lemma emit_all_h_shape ofp l : forall s, h_shape (emit_all ofp s l) = h_shape s.
+Proof.
+  induction l as [|o l IH]; intro s; cbn [emit_all]; [reflexivity|].
+  rewrite IH. destruct (o_bcast o); autorewrite with hdb; reflexivity.
+Qed.
+#[export] Hint Rewrite emit_all_h_shape : hdb.
+Lemma emit_all_h_cur ofp l : forall s, h_cur (emit_all ofp s l) = h_cur s.
+Proof.
+  induction l as [|o l IH]; intro s; cbn [emit_all]; [reflexivity|].
+  rewrite IH. destruct (o_bcast o); autorewrite with hdb; reflexivity.
+Qed.
+#[export] Hint Rewrite emit_all_h_cur : hdb.
+Lemma emit_all_h_reached ofp l : forall s, h_reached (emit_all ofp s l) = h_reached s.
+Proof.
+  induction l as [|o l IH]; intro s; cbn [emit_all]; [reflexivity|].
+  rewrite IH. destruct (o_bcast o); autorewrite with hdb; reflexivity.
+Qed.
+#[export] Hint Rewrite emit_all_h_reached : hdb.
+Lemma store_bcast_h_qp s m : m_bcast m = true -> h_qp (store s m) = h_qp s.
+Proof. intro H. unfold store. rewrite H. dmatch; reflexivity. Qed.
+Lemma store_p2p_h_qb s m : m_bcast m = false -> h_qb (store s m) = h_qb s.
+Proof. intro H. unfold store. rewrite H. dmatch; reflexivity. Qed.
+Lemma emit_all_h_qp ofp l : forall s, h_qp (emit_all ofp s l) = h_qp s.
+Proof.
+  induction l as [|o l IH]; intro s; cbn [emit_all]; [reflexivity|].
+  rewrite IH. destruct (o_bcast o); autorewrite with hdb; [|reflexivity].
+  apply store_bcast_h_qp. reflexivity.
+Qed.
+#[export] Hint Rewrite emit_all_h_qp : hdb.
+Lemma emit_all_h_hashes ofp l : forall s, h_hashes (emit_all ofp s l) = h_hashes s.
+Proof.
+  induction l as [|o l IH]; intro s; cbn [emit_all]; [reflexivity|].
+  rewrite IH. destruct (o_bcast o); autorewrite with hdb; reflexivity.
+Qed.
+#[export] Hint Rewrite emit_all_h_hashes : hdb.
+Lemma emit_all_h_err ofp l : forall s, h_err (emit_all ofp s l) = h_err s.
+Proof.
+  induction l as [|o l IH]; intro s; cbn [emit_all]; [reflexivity|].
+  rewrite IH. destruct (o_bcast o); autorewrite with hdb; reflexivity.
+Qed.
+#[export] Hint Rewrite emit_all_h_err : hdb.
+Lemma emit_all_h_res ofp l : forall s, h_res (emit_all ofp s l) = h_res s.
+Proof.
+  induction l as [|o l IH]; intro s; cbn [emit_all]; [reflexivity|].
+  rewrite IH. destruct (o_bcast o); autorewrite with hdb; reflexivity.
+Qed.
+#[export] Hint Rewrite emit_all_h_res : hdb.
+Lemma emit_all_h_closes ofp l : forall s, h_closes (emit_all ofp s l) = h_closes s.
+Proof.
+  induction l as [|o l IH]; intro s; cbn [emit_all]; [reflexivity|].
+  rewrite IH. destruct (o_bcast o); autorewrite with hdb; reflexivity.
+Qed.
+#[export] Hint Rewrite emit_all_h_closes : hdb.
+
+(* ------------------------------------------------------------------ *)
+(* finalize = iteration of a one-round step                             *)
+(* ------------------------------------------------------------------ *)
+Definition advance (s : hstate) (nr : nat) : hstate :=
+  mkH (h_self s) (h_n s) (h_ssid s) (h_proto s) (h_shape s) nr (nr :: h_reached s)
+      (h_qb s) (h_qp s) (h_hashes s) (h_err s) (h_res s) (h_out s) (h_pending s) (h_closes s) (h_rt s).
+Definition set_res (s : hstate) : hstate :=
+  mkH (h_self s) (h_n s) (h_ssid s) (h_proto s) (h_shape s) (h_cur s) (h_reached s)
+      (h_qb s) (h_qp s) (h_hashes s) (h_err s) true (h_out s) (h_pending s) (h_closes s) (h_rt s).
+
+Definition next_round (s : hstate) : nat := if sh_final (h_shape s) <=? h_cur s then 0 else S (h_cur s).
+Definition cur_bv (s : hstate) : N := match hget (h_hashes s) (h_cur s) with Some d => d | None => 0%N end.
+
+Ltac prjs := cbn [h_self h_n h_ssid h_proto h_shape h_cur h_reached h_qb h_qp h_hashes h_err h_res h_out h_pending h_closes h_rt].
+Tactic Notation "prjs" "in" hyp(H) := cbn [h_self h_n h_ssid h_proto h_shape h_cur h_reached h_qb h_qp h_hashes h_err h_res h_out h_pending h_closes h_rt] in H.
+
+Inductive fstep := FDone (s : hstate) | FCont (s : hstate).
+
+Definition fin_step (vh : nat -> list N -> N) (ofp : nat -> N) (s : hstate) : fstep :=
+  match h_rt s with
+  | Running =>
+      if h_cur s =? 0 then FDone s else
+      let s1 := snd (received_all vh s) in
+      if negb (fst (received_all vh s)) then FDone s1
+      else if negb (check_broadcast_hash s1) then FDone (abort s1 (Some ([], EBroadcastHash)))
+      else
+        let s2 := emit_all ofp s1 (round_outputs s1 (h_cur s1) (cur_bv s1)) in
+        match h_rt s2 with
+        | Running =>
+            let nr := next_round s1 in
+            if existsb (Nat.eqb nr) (h_reached s2) then FDone s2
+            else
+              let s3 := advance s2 nr in
+              if nr =? 0 then FDone (abort (set_res s3) None)
+              else match first_bad s3 nr with
+                   | Some j => FDone (abort s3 (Some ([j], EVerify)))
+                   | None => FCont s3
+                   end
+        | _ => FDone s2
+        end
+  | _ => FDone s
+  end.
+
+Lemma finalize_S vh ofp f s :
+  finalize vh ofp (S f) s = match fin_step vh ofp s with FDone s' => s' | FCont s3 => finalize vh ofp f s3 end.
+Proof.
+  unfold fin_step, advance, set_res. cbn [finalize].
+  destruct (h_rt s); try reflexivity.
+  destruct (h_cur s =? 0); try reflexivity.
+  destruct (received_all vh s) as [all s1]. cbn [fst snd].
+  destruct (negb all); try reflexivity.
+  destruct (negb (check_broadcast_hash s1)); try reflexivity.
+  unfold cur_bv, next_round.
+  rewrite emit_all_h_shape.
+  match goal with |- context [h_rt (emit_all ofp s1 ?l)] => destruct (h_rt (emit_all ofp s1 l)) end; try reflexivity.
+  destruct (existsb _ _); try reflexivity.
+  prjs.
+  destruct (_ =? 0); try reflexivity.
+  destruct (first_bad _ _); reflexivity.
+Qed.
+
+(* induction principle: a step-invariant [P] with exit condition [Q] *)
+Lemma finalize_ind vh ofp (P Q : hstate -> Prop) :
+  (forall s, P s -> Q s) ->
+  (forall s, P s -> match fin_step vh ofp s with FDone s' => Q s' | FCont s3 => P s3 end) ->
+  forall f s, P s -> Q (finalize vh ofp f s).
+Proof.
+  intros H0 Hs. induction f as [|f IH]; intros s Hp; [cbn; auto|].
+  rewrite finalize_S. specialize (Hs s Hp). destruct (fin_step vh ofp s); auto.
+Qed.
+
+(* ------------------------------------------------------------------ *)
+(* Lifecycle invariant                                                  *)
+(* ------------------------------------------------------------------ *)
+Definition nonterm_ok (s : hstate) : Prop :=
+  h_closes s = 0 /\ terminal s = false /\ is_panicked (h_rt s) = false.
+Definition term_ok (s : hstate) : Prop :=
+  h_closes s = 1 /\ terminal s = true /\ is_panicked (h_rt s) = false /\ (h_res s = true -> h_err s = None).
+Definition life_ok (s : hstate) : Prop := nonterm_ok s \/ term_ok s.
+
+Lemma terminal_eq s s' : h_err s' = h_err s -> h_res s' = h_res s -> terminal s' = terminal s.
+Proof. unfold terminal; intros -> ->; reflexivity. Qed.
+
+Lemma terminal_false s : terminal s = false <-> h_err s = None /\ h_res s = false.
+Proof.
+  unfold terminal. destruct (h_err s), (h_res s); cbn; split; try intros [? ?]; try discriminate; auto.
+Qed.
+
+Lemma abort_not_running s e : h_rt s <> Running -> abort s e = s.
+Proof. unfold abort. destruct (h_rt s); congruence. Qed.
+
+Lemma abort_some_running s ce :
+  h_rt s = Running -> h_closes s = 0 ->
+  h_err (abort s (Some ce)) = Some ce /\ h_closes (abort s (Some ce)) = 1 /\ h_rt (abort s (Some ce)) = Running.
+Proof.
+  intros Hr Hc. unfold abort, close_out. rewrite Hr, Hc. cbn. auto.
+Qed.
+
+Lemma abort_none_running s :
+  h_rt s = Running -> h_closes s = 0 ->
+  h_err (abort s None) = h_err s /\ h_closes (abort s None) = 1 /\ h_rt (abort s None) = Running
+  /\ h_out (abort s None) = h_out s /\ h_pending (abort s None) = h_pending s.
+Proof.
+  intros Hr Hc. unfold abort, close_out. rewrite Hr, Hc. cbn. auto.
+Qed.
+
+Lemma emit_no_panic s o : h_closes s = 0 -> is_panicked (h_rt s) = false -> is_panicked (h_rt (emit s o)) = false.
+Proof.
+  intros Hc Hp. unfold emit. destruct (h_rt s) eqn:Hr; try (rewrite Hr; exact Hp).
+  rewrite Hc. cbn [Nat.ltb Nat.leb]. dmatch; cbn; try rewrite Hr; reflexivity.
+Qed.
+
+Lemma emit_all_no_panic ofp l : forall s,
+  h_closes s = 0 -> is_panicked (h_rt s) = false -> is_panicked (h_rt (emit_all ofp s l)) = false.
+Proof.
+  induction l as [|o l IH]; intros s Hc Hp; cbn [emit_all]; [exact Hp|].
+  apply IH.
+  - destruct (o_bcast o); autorewrite with hdb; exact Hc.
+  - apply emit_no_panic; destruct (o_bcast o); autorewrite with hdb; assumption.
+Qed.
+
+Lemma nonterm_frame s s' :
+  h_closes s' = h_closes s -> h_err s' = h_err s -> h_res s' = h_res s -> h_rt s' = h_rt s ->
+  nonterm_ok s -> nonterm_ok s'.
+Proof.
+  intros Hc He Hres Hrt (A & B & C). unfold nonterm_ok.
+  rewrite Hc, Hrt, (terminal_eq s s') by assumption. auto.
+Qed.
+
+Lemma nonterm_store s m : nonterm_ok s -> nonterm_ok (store s m).
+Proof. apply nonterm_frame; autorewrite with hdb; reflexivity. Qed.
+
+Lemma nonterm_ra vh s : nonterm_ok s -> nonterm_ok (snd (received_all vh s)).
+Proof. apply nonterm_frame; autorewrite with hdb; reflexivity. Qed.
+
+Lemma nonterm_emit_all ofp s l : nonterm_ok s -> nonterm_ok (emit_all ofp s l).
+Proof.
+  intros (A & B & C). unfold nonterm_ok. autorewrite with hdb.
+  rewrite (terminal_eq s) by (autorewrite with hdb; reflexivity).
+  auto using emit_all_no_panic.
+Qed.
+
+Lemma life_abort_some s ce : nonterm_ok s -> life_ok (abort s (Some ce)).
+Proof.
+  intros (A & B & C). destruct (h_rt s) eqn:Hr; try discriminate.
+  - destruct (abort_some_running s ce Hr A) as (E & Cl & R).
+    right. unfold term_ok. rewrite Cl, R. unfold terminal. rewrite E. autorewrite with hdb.
+    apply terminal_false in B as [_ B]. rewrite B. cbn. repeat split; auto; discriminate.
+  - rewrite abort_not_running by congruence. left. unfold nonterm_ok. rewrite Hr. auto.
+Qed.
+
+Lemma fin_step_life vh ofp s :
+  nonterm_ok s -> match fin_step vh ofp s with FDone s' => life_ok s' | FCont s3 => nonterm_ok s3 end.
+Proof.
+  intro H. unfold fin_step.
+  destruct (h_rt s) eqn:Hr; try (left; exact H).
+  destruct (h_cur s =? 0); [left; exact H|].
+  pose proof (nonterm_ra vh s H) as H1.
+  set (s1 := snd (received_all vh s)) in *.
+  destruct (negb (fst (received_all vh s))); [left; exact H1|].
+  destruct (negb (check_broadcast_hash s1)); [apply life_abort_some; exact H1|].
+  pose proof (nonterm_emit_all ofp s1 (round_outputs s1 (h_cur s1) (cur_bv s1)) H1) as H2.
+  set (s2 := emit_all ofp s1 _) in *.
+  destruct (h_rt s2) eqn:Hr2; try (left; exact H2).
+  destruct (existsb _ _); [left; exact H2|].
+  assert (H3 : nonterm_ok (advance s2 (next_round s1))).
+  { revert H2. apply nonterm_frame; reflexivity. }
+  destruct (next_round s1 =? 0).
+  - destruct H3 as (A & B & C).
+    destruct (abort_none_running (set_res (advance s2 (next_round s1)))) as (E & Cl & R & _); [exact Hr2|exact A|].
+    right. unfold term_ok. rewrite Cl, R. unfold terminal. rewrite E. autorewrite with hdb.
+    apply terminal_false in B as [B _]. unfold set_res, advance in *. prjs. prjs in B. rewrite B. cbn. auto.
+  - destruct (first_bad _ _); [apply life_abort_some; exact H3|exact H3].
+Qed.
+
+Lemma finalize_life vh ofp f s : nonterm_ok s -> life_ok (finalize vh ofp f s).
+Proof.
+  apply (finalize_ind vh ofp nonterm_ok life_ok); [intros; left; assumption|].
+  apply fin_step_life.
+Qed.
+
+Lemma life_not_terminal s : life_ok s -> terminal s = false -> nonterm_ok s.
+Proof. intros [H|(A & B & C)] T; [exact H|congruence]. Qed.
+
+Lemma accept_guard_terminal s m :
+  (negb (can_accept s m) || (match h_err s with Some _ => true | None => false end) || h_res s || duplicate s m) = false ->
+  can_accept s m = true /\ terminal s = false /\ duplicate s m = false.
+Proof.
+  intro H. apply orb_false_iff in H as [H D]. apply orb_false_iff in H as [H R].
+  apply orb_false_iff in H as [C E]. apply negb_false_iff in C.
+  unfold terminal. rewrite E, R. auto.
+Qed.
+
+Lemma accept_life vh ofp s m : life_ok s -> life_ok (accept vh ofp s m).
+Proof.
+  intro H. unfold accept.
+  destruct (h_rt s) eqn:Hr; try exact H.
+  destruct (_ || _) eqn:G; [exact H|].
+  apply accept_guard_terminal in G as (C & T & D).
+  pose proof (life_not_terminal s H T) as Hn.
+  destruct (m_round m =? 0); [apply life_abort_some; exact Hn|].
+  pose proof (nonterm_store s m Hn) as H1.
+  destruct (negb _); [left; exact H1|].
+  destruct (if m_bcast m then _ else _); [apply finalize_life; exact H1|apply life_abort_some; exact H1].
+Qed.
+
+Lemma stop_life s : life_ok s -> life_ok (stop true s).
+Proof.
+  intro H. unfold stop. destruct (h_rt s); try exact H.
+  destruct (terminal s) eqn:T; [exact H|].
+  apply life_abort_some. apply life_not_terminal; assumption.
+Qed.
+
+Lemma drain_life k s : life_ok s -> life_ok (drain k s).
+Proof.
+  unfold life_ok, nonterm_ok, term_ok. autorewrite with hdb.
+  rewrite (terminal_eq s (drain k s)) by reflexivity. auto.
+Qed.
+
+Lemma init_nonterm self n ssid proto sh : nonterm_ok (init_state self n ssid proto sh).
+Proof. repeat split. Qed.
+
+Lemma new_handler_life vh ofp self n ssid proto sh : life_ok (new_handler vh ofp self n ssid proto sh).
+Proof. apply finalize_life, init_nonterm. Qed.
+
+Lemma api_step_life vh ofp s e : life_ok s -> life_ok (api_step true vh ofp s e).
+Proof. destruct e; cbn; auto using accept_life, stop_life, drain_life. Qed.
+
+Lemma run_api_inv (P : hstate -> Prop) fixed vh ofp :
+  (forall s e, P s -> P (api_step fixed vh ofp s e)) ->
+  forall es s, P s -> P (run_api fixed vh ofp s es).
+Proof.
+  intros Hstep. induction es as [|e es IH]; intros s Hs; cbn; [exact Hs|].
+  apply IH, Hstep, Hs.
+Qed.
+
+Lemma reachable_life vh ofp self n ssid proto sh s :
+  reachable true vh ofp self n ssid proto sh s -> life_ok s.
+Proof.
+  intros [es ->]. apply run_api_inv; [intros; now apply api_step_life|apply new_handler_life].
+Qed.
+
+(* C17: lifecycle invariant on every reachable state (repaired Stop guard) *)
+Theorem lifecycle_inv vh ofp self n ssid proto sh s :
+  reachable true vh ofp self n ssid proto sh s ->
+  h_closes s <= 1
+  /\ (h_closes s = 1 <-> terminal s = true)
+  /\ ~ (h_res s = true /\ h_err s <> None)
+  /\ (forall w, h_rt s <> Panicked w).
+Proof.
+  intro R. apply reachable_life in R.
+  destruct R as [(A & B & C)|(A & B & C & D)].
+  - repeat split; try lia; try congruence.
+    + apply terminal_false in B as [E Rz]. intros [X Y]; congruence.
+    + intros w Hw; rewrite Hw in C; discriminate.
+  - repeat split; try lia; try congruence.
+    + intros [X Y]. auto.
+    + intros w Hw; rewrite Hw in C; discriminate.
+Qed.
+
+(* ------------------------------------------------------------------ *)
+(* C07 / C09 no-op lemmas                                               *)
+(* ------------------------------------------------------------------ *)
+Lemma reject_noop vh ofp s m : can_accept s m = false -> accept vh ofp s m = s.
+Proof. intro H. unfold accept. rewrite H. cbn. destruct (h_rt s); reflexivity. Qed.
+
+Lemma duplicate_noop vh ofp s m : duplicate s m = true -> accept vh ofp s m = s.
+Proof. intro H. unfold accept. rewrite H. rewrite !orb_true_r. destruct (h_rt s); reflexivity. Qed.
+
+Lemma terminal_noop vh ofp s m : terminal s = true -> accept vh ofp s m = s.
+Proof.
+  intro H. unfold accept, terminal in *. destruct (h_rt s); try reflexivity.
+  destruct (h_err s); [rewrite orb_true_r; reflexivity|].
+  cbn in H. rewrite H. rewrite orb_true_r. reflexivity.
+Qed.
+
+Lemma not_running_noop vh ofp s m : h_rt s <> Running -> accept vh ofp s m = s.
+Proof. intro H. unfold accept. destruct (h_rt s); congruence. Qed.
+
+(* can_accept is exactly this conjunction of header conditions *)
+Definition can_accept_spec (s : hstate) (m : msg) : Prop :=
+  m_from m <> h_self s
+  /\ (m_to m = None \/ m_to m = Some (h_self s))
+  /\ m_proto m = h_proto s
+  /\ m_ssid m = h_ssid s
+  /\ m_from m < h_n s
+  /\ m_data m = true
+  /\ m_round m <= sh_final (h_shape s)
+  /\ (m_round m = 0 \/ h_cur s <= m_round m).
+
+Lemma is_for_spec self m :
+  is_for self m = true <-> m_from m <> self /\ (m_to m = None \/ m_to m = Some self).
+Proof.
+  unfold is_for. rewrite andb_true_iff, negb_true_iff, Nat.eqb_neq.
+  destruct (m_to m) as [t|].
+  - rewrite Nat.eqb_eq. split.
+    + intros [A B]. split; [exact A|right; congruence].
+    + intros [A [B|B]]; [discriminate|]. split; [exact A|congruence].
+  - split; intros [A B]; auto.
+Qed.
+
+Lemma can_accept_total_spec s m : can_accept s m = true <-> can_accept_spec s m.
+Proof.
+  unfold can_accept, can_accept_spec.
+  rewrite !andb_true_iff, is_for_spec, !N.eqb_eq, Nat.ltb_lt, Nat.leb_le, negb_true_iff, andb_false_iff, !Nat.ltb_ge.
+  intuition lia.
+Qed.
+
+(* the header of a message: everything [can_accept] may depend on *)
+Definition same_header (m m' : msg) : Prop :=
+  m_ssid m = m_ssid m' /\ m_proto m = m_proto m' /\ m_from m = m_from m' /\ m_to m = m_to m'
+  /\ m_round m = m_round m' /\ m_data m = m_data m'.
+
+Lemma can_accept_header_only s m m' : same_header m m' -> can_accept s m = can_accept s m'.
+Proof.
+  intros (A & B & C & D & E & F). unfold can_accept, is_for. rewrite A, B, C, D, E, F. reflexivity.
+Qed.
+
+Lemma foreign_session_rejected s m :
+  m_ssid m <> h_ssid s \/ m_proto m <> h_proto s \/ ~ (m_from m < h_n s) \/ is_for (h_self s) m = false ->
+  can_accept s m = false.
+Proof.
+  intro H. destruct (can_accept s m) eqn:C; [|reflexivity].
+  apply can_accept_total_spec in C. destruct C as (A & B & C & D & E & _).
+  destruct H as [H|[H|[H|H]]]; try contradiction; try congruence.
+  assert (is_for (h_self s) m = true) by (apply is_for_spec; auto). congruence.
+Qed.
+
+Lemma foreign_session_noop vh ofp s m :
+  m_ssid m <> h_ssid s \/ m_proto m <> h_proto s \/ ~ (m_from m < h_n s) \/ is_for (h_self s) m = false ->
+  accept vh ofp s m = s.
+Proof. intro H. apply reject_noop, foreign_session_rejected, H. Qed.
+
+Lemma stale_round_rejected s m : 0 < m_round m < h_cur s -> can_accept s m = false.
+Proof.
+  intro H. destruct (can_accept s m) eqn:C; [|reflexivity].
+  apply can_accept_total_spec in C. unfold can_accept_spec in C. lia.
+Qed.
+
+Lemma future_round_rejected s m : sh_final (h_shape s) < m_round m -> can_accept s m = false.
+Proof.
+  intro H. destruct (can_accept s m) eqn:C; [|reflexivity].
+  apply can_accept_total_spec in C. unfold can_accept_spec in C. lia.
+Qed.
+
+(* ------------------------------------------------------------------ *)
+(* Queue slots only ever get filled, never overwritten                  *)
+(* ------------------------------------------------------------------ *)
+Definition slot (s : hstate) (b : bool) (r : nat) (j : party) : option msg :=
+  qget (if b then h_qb s else h_qp s) r j.
+
+Lemma slot_frame s s' b r j : h_qb s' = h_qb s -> h_qp s' = h_qp s -> slot s' b r j = slot s b r j.
+Proof. unfold slot. intros -> ->. reflexivity. Qed.
+
+Lemma qget_cons_other q r j r' j' m x :
+  qget q r j = Some x -> qget q r' j' = None -> qget ((r', j', m) :: q) r j = Some x.
+Proof.
+  intros H N. cbn. destruct ((r' =? r) && (j' =? j)) eqn:E; [|exact H].
+  apply andb_true_iff in E as [E1 E2]. apply Nat.eqb_eq in E1, E2. subst. congruence.
+Qed.
+
+Lemma store_slot_mono s m b r j x : slot s b r j = Some x -> slot (store s m) b r j = Some x.
+Proof.
+  unfold slot, store, queue_of. intro H.
+  destruct (negb (has_queue s (m_round m))); [exact H|].
+  destruct (m_bcast m) eqn:Bm.
+  - destruct (qget (h_qb s) (m_round m) (m_from m)) eqn:Q; [exact H|].
+    destruct b; prjs; [|exact H]. apply qget_cons_other; assumption.
+  - destruct (qget (h_qp s) (m_round m) (m_from m)) eqn:Q; [exact H|].
+    destruct b; prjs; [exact H|]. apply qget_cons_other; assumption.
+Qed.
+
+Lemma store_slot_new s m :
+  has_queue s (m_round m) = true -> slot s (m_bcast m) (m_round m) (m_from m) = None ->
+  slot (store s m) (m_bcast m) (m_round m) (m_from m) = Some m.
+Proof.
+  unfold slot, store, queue_of. intros Hq N. rewrite Hq. cbn [negb].
+  destruct (m_bcast m); rewrite N; prjs; cbn; rewrite !Nat.eqb_refl; reflexivity.
+Qed.
+
+Lemma emit_all_slot_mono ofp l b r j x : forall s, slot s b r j = Some x -> slot (emit_all ofp s l) b r j = Some x.
+Proof.
+  induction l as [|o l IH]; intros s H; cbn [emit_all]; [exact H|].
+  apply IH. rewrite (slot_frame (if o_bcast o then store s (own_bcast_msg ofp s o) else s)) by (autorewrite with hdb; reflexivity).
+  destruct (o_bcast o); [apply store_slot_mono|]; exact H.
+Qed.
+
+Lemma fin_step_slot_mono vh ofp b r j x s :
+  slot s b r j = Some x ->
+  match fin_step vh ofp s with FDone s' => slot s' b r j = Some x | FCont s3 => slot s3 b r j = Some x end.
+Proof.
+  intro H. unfold fin_step.
+  destruct (h_rt s); try exact H.
+  destruct (h_cur s =? 0); [exact H|].
+  assert (H1 : slot (snd (received_all vh s)) b r j = Some x)
+    by (rewrite (slot_frame s) by (autorewrite with hdb; reflexivity); exact H).
+  set (s1 := snd (received_all vh s)) in *.
+  destruct (negb (fst _)); [exact H1|].
+  destruct (negb (check_broadcast_hash s1)).
+  { rewrite (slot_frame s1) by (autorewrite with hdb; reflexivity); exact H1. }
+  pose proof (emit_all_slot_mono ofp (round_outputs s1 (h_cur s1) (cur_bv s1)) b r j x s1 H1) as H2.
+  set (s2 := emit_all ofp s1 _) in *.
+  destruct (h_rt s2); try exact H2.
+  destruct (existsb _ _); [exact H2|].
+  destruct (_ =? 0).
+  { rewrite (slot_frame s2) by (autorewrite with hdb; reflexivity); exact H2. }
+  destruct (first_bad _ _); [|exact H2].
+  rewrite (slot_frame s2) by (autorewrite with hdb; reflexivity); exact H2.
+Qed.
+
+Lemma finalize_slot_mono vh ofp f b r j x s :
+  slot s b r j = Some x -> slot (finalize vh ofp f s) b r j = Some x.
+Proof.
+  apply (finalize_ind vh ofp (fun s => slot s b r j = Some x) (fun s => slot s b r j = Some x)); [auto|].
+  intros; now apply fin_step_slot_mono.
+Qed.
+
+Lemma accept_slot_mono vh ofp s m b r j x : slot s b r j = Some x -> slot (accept vh ofp s m) b r j = Some x.
+Proof.
+  intro H. unfold accept. destruct (h_rt s); try exact H.
+  destruct (_ || _); [exact H|].
+  destruct (m_round m =? 0).
+  { rewrite (slot_frame s) by (autorewrite with hdb; reflexivity); exact H. }
+  pose proof (store_slot_mono s m b r j x H) as H1.
+  destruct (negb _); [exact H1|].
+  destruct (if m_bcast m then _ else _); [apply finalize_slot_mono; exact H1|].
+  rewrite (slot_frame (store s m)) by (autorewrite with hdb; reflexivity); exact H1.
+Qed.
+
+Lemma stop_slot fixed s b r j : slot (stop fixed s) b r j = slot s b r j.
+Proof.
+  unfold stop. destruct (h_rt s); try reflexivity.
+  destruct fixed, (terminal s); try reflexivity; apply slot_frame; autorewrite with hdb; reflexivity.
+Qed.
+
+Lemma api_step_slot_mono fixed vh ofp s e b r j x :
+  slot s b r j = Some x -> slot (api_step fixed vh ofp s e) b r j = Some x.
+Proof.
+  intro H. destruct e; cbn.
+  - now apply accept_slot_mono.
+  - now rewrite stop_slot.
+  - exact H.
+Qed.
+
+Lemma run_api_slot_mono fixed vh ofp es s b r j x :
+  slot s b r j = Some x -> slot (run_api fixed vh ofp s es) b r j = Some x.
+Proof.
+  apply (run_api_inv (fun s => slot s b r j = Some x)). intros; now apply api_step_slot_mono.
+Qed.
+
+Lemma duplicate_of_slot s m x : 0 < m_round m -> slot s (m_bcast m) (m_round m) (m_from m) = Some x -> duplicate s m = true.
+Proof.
+  unfold duplicate, slot, queue_of. intros R H.
+  destruct (m_round m =? 0) eqn:E; [apply Nat.eqb_eq in E; lia|].
+  destruct (negb _); [reflexivity|]. rewrite H. reflexivity.
+Qed.
+
+Lemma duplicate_false_slot s m :
+  duplicate s m = false -> 0 < m_round m ->
+  has_queue s (m_round m) = true /\ slot s (m_bcast m) (m_round m) (m_from m) = None.
+Proof.
+  unfold duplicate, slot, queue_of. intros D R.
+  destruct (m_round m =? 0) eqn:E; [apply Nat.eqb_eq in E; lia|].
+  destruct (has_queue s (m_round m)); cbn in D; [|discriminate].
+  destruct (qget _ _ _); [discriminate|auto].
+Qed.
+
+(* an accepted, fresh message is stored in its slot *)
+Lemma accept_stores vh ofp s m :
+  h_rt s = Running -> can_accept s m = true -> terminal s = false -> duplicate s m = false -> 0 < m_round m ->
+  slot (accept vh ofp s m) (m_bcast m) (m_round m) (m_from m) = Some m.
+Proof.
+  intros Hr C T D R. unfold accept. rewrite Hr, C, D.
+  apply terminal_false in T as [E Rs]. rewrite E, Rs. cbn [negb orb].
+  destruct (m_round m =? 0) eqn:E0; [apply Nat.eqb_eq in E0; lia|].
+  destruct (duplicate_false_slot s m D R) as [Hq N].
+  pose proof (store_slot_new s m Hq N) as H1.
+  destruct (negb _); [exact H1|].
+  destruct (if m_bcast m then _ else _); [apply finalize_slot_mono; exact H1|].
+  rewrite (slot_frame (store s m)) by (autorewrite with hdb; reflexivity); exact H1.
+Qed.
+
+Theorem first_message_wins fixed vh ofp s m m' :
+  h_rt s = Running -> can_accept s m = true -> terminal s = false -> duplicate s m = false -> 0 < m_round m ->
+  m_round m' = m_round m -> m_from m' = m_from m -> m_bcast m' = m_bcast m ->
+  let s1 := accept vh ofp s m in
+  slot s1 (m_bcast m) (m_round m) (m_from m) = Some m
+  /\ accept vh ofp s1 m' = s1
+  /\ (forall es, let s2 := run_api fixed vh ofp s1 es in
+                 slot s2 (m_bcast m) (m_round m) (m_from m) = Some m /\ accept vh ofp s2 m' = s2).
+Proof.
+  intros Hr C T D R E1 E2 E3 s1.
+  pose proof (accept_stores vh ofp s m Hr C T D R) as H. fold s1 in H.
+  assert (G : forall s2, slot s2 (m_bcast m) (m_round m) (m_from m) = Some m -> accept vh ofp s2 m' = s2).
+  { intros s2 H2. apply duplicate_noop. apply (duplicate_of_slot s2 m' m); [lia|]. rewrite E1, E2, E3. exact H2. }
+  split; [exact H|]. split; [apply G, H|].
+  intros es s2. assert (H2 : slot s2 (m_bcast m) (m_round m) (m_from m) = Some m) by (apply run_api_slot_mono, H).
+  split; [exact H2|apply G, H2].
+Qed.
+
+(* ------------------------------------------------------------------ *)
+(* C17: terminal states are stable; Stop                                *)
+(* ------------------------------------------------------------------ *)
+Lemma stop_finished_noop s : terminal s = true -> stop true s = s.
+Proof. intro H. unfold stop. rewrite H. destruct (h_rt s); reflexivity. Qed.
+
+Definition same_but_pending (s s' : hstate) : Prop :=
+  h_self s' = h_self s /\ h_n s' = h_n s /\ h_ssid s' = h_ssid s /\ h_proto s' = h_proto s /\ h_shape s' = h_shape s
+  /\ h_cur s' = h_cur s /\ h_reached s' = h_reached s /\ h_qb s' = h_qb s /\ h_qp s' = h_qp s /\ h_hashes s' = h_hashes s
+  /\ h_err s' = h_err s /\ h_res s' = h_res s /\ h_out s' = h_out s /\ h_closes s' = h_closes s /\ h_rt s' = h_rt s.
+
+Lemma same_but_pending_refl s : same_but_pending s s.
+Proof. repeat split. Qed.
+
+Lemma same_but_pending_trans s1 s2 s3 : same_but_pending s1 s2 -> same_but_pending s2 s3 -> same_but_pending s1 s3.
+Proof. unfold same_but_pending. intuition congruence. Qed.
+
+Lemma same_but_pending_drain k s : same_but_pending s (drain k s).
+Proof. unfold same_but_pending. autorewrite with hdb. repeat split. Qed.
+
+Lemma same_but_pending_terminal s s' : same_but_pending s s' -> terminal s' = terminal s.
+Proof. intros H. apply terminal_eq; apply H. Qed.
+
+Lemma same_but_pending_result_class s s' : same_but_pending s s' -> result_class s' = result_class s.
+Proof. intros H. unfold result_class. destruct H as (_&_&_&_&_&_&_&_&_&_&E&R&_). rewrite E, R. reflexivity. Qed.
+
+
+Theorem terminal_stable_step vh ofp s e :
+  terminal s = true ->
+  let s' := api_step true vh ofp s e in
+  same_but_pending s s' /\ ((forall k, e <> Drain k) -> s' = s).
+Proof.
+  intros T s'. subst s'. destruct e; cbn.
+  - rewrite terminal_noop by exact T. split; [apply same_but_pending_refl|reflexivity].
+  - rewrite stop_finished_noop by exact T. split; [apply same_but_pending_refl|reflexivity].
+  - split; [apply same_but_pending_drain|]. intro H. exfalso. apply (H k). reflexivity.
+Qed.
+
+Lemma run_api_cons fixed vh ofp s e es :
+  run_api fixed vh ofp s (e :: es) = run_api fixed vh ofp (api_step fixed vh ofp s e) es.
+Proof. reflexivity. Qed.
+
+Theorem terminal_stable vh ofp es : forall s,
+  terminal s = true ->
+  let s' := run_api true vh ofp s es in
+  same_but_pending s s' /\ terminal s' = true /\ result_class s' = result_class s.
+Proof.
+  induction es as [|e es IH]; intros s T s'; subst s'.
+  - cbn. split; [apply same_but_pending_refl|auto].
+  - rewrite run_api_cons.
+    destruct (terminal_stable_step vh ofp s e T) as [H _]. cbv zeta in H.
+    assert (T1 : terminal (api_step true vh ofp s e) = true) by (rewrite (same_but_pending_terminal s); assumption).
+    destruct (IH _ T1) as (A & B & C). cbv zeta in A, B, C.
+    split; [eapply same_but_pending_trans; eassumption|]. split; [exact B|].
+    rewrite C. apply same_but_pending_result_class, H.
+Qed.
+
+Lemma stop_ends_running_life s :
+  life_ok s -> terminal s = false -> h_rt s = Running ->
+  let s' := stop true s in
+  result_class s' = 2 /\ h_closes s' = 1 /\ h_err s' = Some ([h_self s], EUser).
+Proof.
+  intros L T Hr s'. subst s'. unfold stop. rewrite Hr, T.
+  destruct (life_not_terminal s L T) as (A & _ & _).
+  destruct (abort_some_running s ([h_self s], EUser) Hr A) as (E & Cl & R).
+  unfold result_class. rewrite E. autorewrite with hdb.
+  apply terminal_false in T as [_ T]. rewrite T. auto.
+Qed.
+
+Theorem stop_ends_running vh ofp self n ssid proto sh s :
+  reachable true vh ofp self n ssid proto sh s ->
+  terminal s = false -> h_rt s = Running ->
+  let s' := stop true s in
+  result_class s' = 2 /\ h_closes s' = 1 /\ h_err s' = Some ([h_self s], EUser).
+Proof. intro R. apply stop_ends_running_life. eapply reachable_life; eassumption. Qed.
+
+(* C05: accept never panics, whatever the message *)
+Theorem accept_no_panic vh ofp self n ssid proto sh s m :
+  reachable true vh ofp self n ssid proto sh s ->
+  forall w, h_rt (accept vh ofp s m) <> Panicked w.
+Proof.
+  intros R w Hw. apply reachable_life in R. apply (accept_life vh ofp s m) in R.
+  destruct R as [(_ & _ & C)|(_ & _ & C & _)]; rewrite Hw in C; discriminate.
+Qed.
+
+(* ------------------------------------------------------------------ *)
+(* Further invariants: current round is reached; queue keys; static    *)
+(* ------------------------------------------------------------------ *)
+Definition cur_reached (s : hstate) : Prop := existsb (Nat.eqb (h_cur s)) (h_reached s) = true.
+
+Definition wf_queues (s : hstate) : Prop :=
+  (forall r j m, qget (h_qb s) r j = Some m -> m_round m = r /\ m_from m = j /\ m_bcast m = true)
+  /\ (forall r j m, qget (h_qp s) r j = Some m -> m_round m = r /\ m_from m = j /\ m_bcast m = false).
+
+(* culprit lists have the shape their error kind promises; EFinalize / EProtoAbort are never produced by the
+   control model (they come from the protocol's own Finalize) *)
+Definition err_shape (s : hstate) : Prop :=
+  match h_err s with
+  | None => True
+  | Some (c, k) =>
+      match k with
+      | EBroadcastHash => c = []
+      | EUser => c = [h_self s]
+      | EAbortNotice | EVerify => exists j, c = [j] /\ j <> h_self s
+      | _ => False
+      end
+  end.
+
+Definition hinv (s : hstate) : Prop := cur_reached s /\ wf_queues s /\ err_shape s.
+
+Lemma hinv_frame s s' :
+  h_self s' = h_self s -> h_cur s' = h_cur s -> h_reached s' = h_reached s -> h_qb s' = h_qb s -> h_qp s' = h_qp s ->
+  h_err s' = h_err s -> hinv s -> hinv s'.
+Proof.
+  unfold hinv, cur_reached, wf_queues, err_shape. intros -> -> -> -> -> ->. auto.
+Qed.
+
+Lemma abort_none_err s : h_err (abort s None) = h_err s.
+Proof. unfold abort, close_out. dmatch; cbn; dmatch; reflexivity. Qed.
+
+Lemma abort_err_cases s ce : h_err (abort s (Some ce)) = Some ce \/ h_err (abort s (Some ce)) = h_err s.
+Proof. unfold abort, close_out, set_rt. dmatch; cbn; dmatch; cbn; auto. Qed.
+
+Lemma hinv_abort s c k :
+  match k with
+  | EBroadcastHash => c = []
+  | EUser => c = [h_self s]
+  | EAbortNotice | EVerify => exists j, c = [j] /\ j <> h_self s
+  | _ => False
+  end ->
+  hinv s -> hinv (abort s (Some (c, k))).
+Proof.
+  intros Hk (A & B & C). split; [|split].
+  - unfold cur_reached in *. autorewrite with hdb. exact A.
+  - unfold wf_queues in *. autorewrite with hdb. exact B.
+  - unfold err_shape in *. rewrite abort_h_self.
+    destruct (abort_err_cases s (c, k)) as [E|E]; rewrite E; [exact Hk|exact C].
+Qed.
+
+Lemma hinv_abort_none s : hinv s -> hinv (abort s None).
+Proof. apply hinv_frame; autorewrite with hdb; try reflexivity. apply abort_none_err. Qed.
+
+Lemma wf_store s m : wf_queues s -> wf_queues (store s m).
+Proof.
+  intros [A B]. unfold wf_queues, store, queue_of.
+  destruct (negb _); [split; assumption|].
+  destruct (m_bcast m) eqn:Bm.
+  - destruct (qget (h_qb s) _ _); [split; assumption|]. prjs. split; [|exact B].
+    intros r j x. cbn [qget]. destruct ((m_round m =? r) && (m_from m =? j)) eqn:E; [|apply A].
+    apply andb_true_iff in E as [E1 E2]. apply Nat.eqb_eq in E1, E2. intro H; inversion H; subst. auto.
+  - destruct (qget (h_qp s) _ _); [split; assumption|]. prjs. split; [exact A|].
+    intros r j x. cbn [qget]. destruct ((m_round m =? r) && (m_from m =? j)) eqn:E; [|apply B].
+    apply andb_true_iff in E as [E1 E2]. apply Nat.eqb_eq in E1, E2. intro H; inversion H; subst. auto.
+Qed.
+
+Lemma hinv_store s m : hinv s -> hinv (store s m).
+Proof.
+  intros (A & B & C). split; [|split].
+  - unfold cur_reached in *. autorewrite with hdb. exact A.
+  - apply wf_store, B.
+  - unfold err_shape in *. autorewrite with hdb. exact C.
+Qed.
+
+Lemma hinv_emit s o : hinv s -> hinv (emit s o).
+Proof. apply hinv_frame; autorewrite with hdb; reflexivity. Qed.
+
+Lemma hinv_emit_all ofp l : forall s, hinv s -> hinv (emit_all ofp s l).
+Proof.
+  induction l as [|o l IH]; intros s H; cbn [emit_all]; [exact H|].
+  apply IH, hinv_emit. destruct (o_bcast o); [apply hinv_store|]; exact H.
+Qed.
+
+Lemma others_spec s j : In j (others s) <-> j < h_n s /\ j <> h_self s.
+Proof.
+  unfold others. rewrite filter_In, in_seq, negb_true_iff, Nat.eqb_neq. intuition lia.
+Qed.
+
+Lemma first_bad_in s r j : first_bad s r = Some j -> In j (others s).
+Proof.
+  unfold first_bad. destruct (sh_bcast _ _); intro H; apply find_some in H; apply H.
+Qed.
+
+Lemma fin_step_hinv vh ofp s :
+  hinv s -> match fin_step vh ofp s with FDone s' => hinv s' | FCont s3 => hinv s3 end.
+Proof.
+  intro H. unfold fin_step.
+  destruct (h_rt s); try exact H.
+  destruct (h_cur s =? 0); [exact H|].
+  assert (H1 : hinv (snd (received_all vh s))) by (revert H; apply hinv_frame; autorewrite with hdb; reflexivity).
+  set (s1 := snd (received_all vh s)) in *.
+  destruct (negb (fst _)); [exact H1|].
+  destruct (negb (check_broadcast_hash s1)); [apply hinv_abort; [reflexivity|exact H1]|].
+  pose proof (hinv_emit_all ofp (round_outputs s1 (h_cur s1) (cur_bv s1)) s1 H1) as H2.
+  set (s2 := emit_all ofp s1 _) in *.
+  destruct (h_rt s2); try exact H2.
+  destruct (existsb _ _); [exact H2|].
+  assert (H3 : hinv (advance s2 (next_round s1))).
+  { destruct H2 as (A & B & C). split; [|split; [exact B|exact C]].
+    unfold cur_reached, advance. prjs. cbn [existsb]. rewrite Nat.eqb_refl. reflexivity. }
+  destruct (_ =? 0).
+  { apply hinv_abort_none. revert H3. apply hinv_frame; reflexivity. }
+  destruct (first_bad _ _) eqn:F; [|exact H3].
+  apply hinv_abort; [|exact H3].
+  apply first_bad_in, others_spec in F. exists p. split; [reflexivity|apply F].
+Qed.
+
+Lemma finalize_hinv vh ofp f s : hinv s -> hinv (finalize vh ofp f s).
+Proof. apply (finalize_ind vh ofp hinv hinv); [auto|apply fin_step_hinv]. Qed.
+
+Lemma accept_hinv vh ofp s m : hinv s -> hinv (accept vh ofp s m).
+Proof.
+  intro H. unfold accept. destruct (h_rt s); try exact H.
+  destruct (_ || _) eqn:G; [exact H|].
+  apply accept_guard_terminal in G as (C & _ & _).
+  apply can_accept_total_spec in C. destruct C as (C & _).
+  destruct (m_round m =? 0).
+  { apply hinv_abort; [|exact H]. exists (m_from m). auto. }
+  pose proof (hinv_store s m H) as H1.
+  destruct (negb _); [exact H1|].
+  destruct (if m_bcast m then _ else _); [apply finalize_hinv; exact H1|].
+  apply hinv_abort; [|exact H1]. exists (m_from m). autorewrite with hdb. auto.
+Qed.
+
+Lemma stop_hinv fixed s : hinv s -> hinv (stop fixed s).
+Proof.
+  intro H. unfold stop. destruct (h_rt s); try exact H.
+  destruct fixed, (terminal s); try exact H; apply hinv_abort; auto.
+Qed.
+
+Lemma drain_hinv k s : hinv s -> hinv (drain k s).
+Proof. apply hinv_frame; reflexivity. Qed.
+
+Lemma init_hinv self n ssid proto sh : hinv (init_state self n ssid proto sh).
+Proof. repeat split; cbn; discriminate. Qed.
+
+Lemma reachable_hinv fixed vh ofp self n ssid proto sh s :
+  reachable fixed vh ofp self n ssid proto sh s -> hinv s.
+Proof.
+  intros [es ->]. apply run_api_inv.
+  - intros s e H. destruct e; cbn; auto using accept_hinv, stop_hinv, drain_hinv.
+  - apply finalize_hinv, init_hinv.
+Qed.
+
+
+Definition same_static (s s' : hstate) : Prop :=
+  h_self s' = h_self s /\ h_n s' = h_n s /\ h_ssid s' = h_ssid s /\ h_proto s' = h_proto s /\ h_shape s' = h_shape s.
+
+Lemma same_static_frame s0 s s' :
+  h_self s' = h_self s -> h_n s' = h_n s -> h_ssid s' = h_ssid s -> h_proto s' = h_proto s -> h_shape s' = h_shape s ->
+  same_static s0 s -> same_static s0 s'.
+Proof. unfold same_static. intros -> -> -> -> ->. auto. Qed.
+
+Ltac sframe := apply same_static_frame; autorewrite with hdb; reflexivity.
+
+Lemma fin_step_static vh ofp s0 s :
+  same_static s0 s -> match fin_step vh ofp s with FDone s' => same_static s0 s' | FCont s3 => same_static s0 s3 end.
+Proof.
+  intro H. unfold fin_step.
+  destruct (h_rt s); try exact H.
+  destruct (h_cur s =? 0); [exact H|].
+  assert (H1 : same_static s0 (snd (received_all vh s))) by (revert H; sframe).
+  set (s1 := snd (received_all vh s)) in *.
+  destruct (negb (fst _)); [exact H1|].
+  destruct (negb (check_broadcast_hash s1)); [revert H1; sframe|].
+  assert (H2 : same_static s0 (emit_all ofp s1 (round_outputs s1 (h_cur s1) (cur_bv s1)))) by (revert H1; sframe).
+  set (s2 := emit_all ofp s1 _) in *.
+  destruct (h_rt s2); try exact H2.
+  destruct (existsb _ _); [exact H2|].
+  destruct (_ =? 0); [revert H2; sframe|].
+  destruct (first_bad _ _); [revert H2; sframe|exact H2].
+Qed.
+
+Lemma finalize_static vh ofp f s0 s : same_static s0 s -> same_static s0 (finalize vh ofp f s).
+Proof. apply (finalize_ind vh ofp (same_static s0) (same_static s0)); [auto|apply fin_step_static]. Qed.
+
+Lemma accept_static vh ofp s m : same_static s (accept vh ofp s m).
+Proof.
+  assert (H : same_static s s) by (repeat split).
+  unfold accept. destruct (h_rt s); try exact H.
+  destruct (_ || _); [exact H|].
+  destruct (m_round m =? 0); [revert H; sframe|].
+  destruct (negb _); [revert H; sframe|].
+  destruct (if m_bcast m then _ else _); [apply finalize_static|]; revert H; sframe.
+Qed.
+
+Lemma api_step_static fixed vh ofp s e : same_static s (api_step fixed vh ofp s e).
+Proof.
+  destruct e; cbn.
+  - apply accept_static.
+  - assert (H : same_static s s) by (repeat split).
+    unfold stop. destruct (h_rt s); try exact H. destruct fixed, (terminal s); try exact H; revert H; sframe.
+  - repeat split.
+Qed.
+
+Lemma run_api_static fixed vh ofp es : forall s, same_static s (run_api fixed vh ofp s es).
+Proof.
+  induction es as [|e es IH]; intro s; [repeat split|].
+  rewrite run_api_cons. specialize (IH (api_step fixed vh ofp s e)).
+  pose proof (api_step_static fixed vh ofp s e) as H. unfold same_static in *. intuition congruence.
+Qed.
+
+Lemma new_handler_static vh ofp self n ssid proto sh :
+  same_static (init_state self n ssid proto sh) (new_handler vh ofp self n ssid proto sh).
+Proof. apply finalize_static. repeat split. Qed.
+
+Theorem reachable_static fixed vh ofp self n ssid proto sh s :
+  reachable fixed vh ofp self n ssid proto sh s ->
+  h_self s = self /\ h_n s = n /\ h_ssid s = ssid /\ h_proto s = proto /\ h_shape s = sh.
+Proof.
+  intros [es ->].
+  pose proof (run_api_static fixed vh ofp es (new_handler vh ofp self n ssid proto sh)) as H.
+  pose proof (new_handler_static vh ofp self n ssid proto sh) as H0.
+  unfold same_static in *. cbn in H0. intuition congruence.
+Qed.
+
+(* ------------------------------------------------------------------ *)
+(* C05: an invalid message of the current round ends in a clean abort   *)
+(* ------------------------------------------------------------------ *)
+Lemma invalid_message_clean_abort_inv vh ofp s m :
+  life_ok s -> cur_reached s ->
+  h_rt s = Running -> terminal s = false ->
+  can_accept s m = true -> duplicate s m = false ->
+  0 < m_round m -> m_round m = h_cur s -> m_valid m = false ->
+  (m_bcast m = true \/ sh_bcast (h_shape s) (m_round m) = false \/ slot s true (m_round m) (m_from m) <> None) ->
+  let s' := accept vh ofp s m in
+  h_closes s' = 1 /\ result_class s' = 2 /\ h_err s' = Some ([m_from m], EVerify) /\ h_rt s' = Running.
+Proof.
+  intros L CR Hr T C D R Ecur V Now s'. subst s'.
+  unfold accept. rewrite Hr, C, D.
+  pose proof T as T'. apply terminal_false in T' as [E Rs]. rewrite E, Rs. cbn [negb orb].
+  destruct (m_round m =? 0) eqn:E0; [apply Nat.eqb_eq in E0; lia|].
+  autorewrite with hdb. rewrite Ecur, Nat.eqb_refl. cbn [negb].
+  assert (Vf : (if m_bcast m then verify_bcast (store s m) m else verify_p2p (store s m) m) = false).
+  { unfold verify_bcast, verify_p2p. autorewrite with hdb. rewrite Ecur. unfold cur_reached in CR. rewrite CR. cbn [negb].
+    rewrite <- Ecur.
+    destruct (m_bcast m) eqn:Bm.
+    - destruct (sh_bcast _ _); [|reflexivity]. cbn [negb]. rewrite V. reflexivity.
+    - rewrite store_p2p_h_qb by exact Bm.
+      destruct Now as [N|[N|N]]; [discriminate| |].
+      + rewrite N. cbn [andb]. rewrite V. destruct (sh_p2p _ _); reflexivity.
+      + unfold slot in N. destruct (qget (h_qb s) (m_round m) (m_from m)); [|congruence].
+        rewrite andb_false_r. rewrite V. destruct (sh_p2p _ _); reflexivity. }
+  rewrite Vf.
+  destruct (life_not_terminal s L T) as (A & _ & _).
+  destruct (abort_some_running (store s m) ([m_from m], EVerify)) as (Er & Cl & Rr); autorewrite with hdb; auto.
+  unfold result_class. rewrite Er. autorewrite with hdb. rewrite Rs. auto.
+Qed.
+
+Theorem invalid_message_clean_abort vh ofp self n ssid proto sh s m :
+  reachable true vh ofp self n ssid proto sh s ->
+  h_rt s = Running -> terminal s = false ->
+  can_accept s m = true -> duplicate s m = false ->
+  0 < m_round m -> m_round m = h_cur s -> m_valid m = false ->
+  (m_bcast m = true \/ sh_bcast (h_shape s) (m_round m) = false \/ slot s true (m_round m) (m_from m) <> None) ->
+  let s' := accept vh ofp s m in
+  h_closes s' = 1 /\ result_class s' = 2 /\ h_err s' = Some ([m_from m], EVerify) /\ h_rt s' = Running.
+Proof.
+  intro R. apply invalid_message_clean_abort_inv.
+  - eapply reachable_life; eassumption.
+  - eapply reachable_hinv; eassumption.
+Qed.
+
+(* ------------------------------------------------------------------ *)
+(* C04 (handler level)                                                  *)
+(* ------------------------------------------------------------------ *)
+Lemma abort_notice_attribution_inv vh ofp s m :
+  life_ok s -> h_rt s = Running -> terminal s = false -> can_accept s m = true -> m_round m = 0 ->
+  let s' := accept vh ofp s m in
+  h_err s' = Some ([m_from m], EAbortNotice) /\ h_closes s' = 1 /\ result_class s' = 2.
+Proof.
+  intros L Hr T C R0 s'. subst s'. unfold accept, duplicate. rewrite Hr, C, R0. cbn [Nat.eqb].
+  pose proof T as T'. apply terminal_false in T' as [E Rs]. rewrite E, Rs. cbn [negb orb].
+  destruct (life_not_terminal s L T) as (A & _ & _).
+  destruct (abort_some_running s ([m_from m], EAbortNotice) Hr A) as (Er & Cl & Rr).
+  unfold result_class. rewrite Er. autorewrite with hdb. rewrite Rs. auto.
+Qed.
+
+Theorem abort_notice_attribution vh ofp self n ssid proto sh s m :
+  reachable true vh ofp self n ssid proto sh s ->
+  h_rt s = Running -> terminal s = false -> can_accept s m = true -> m_round m = 0 ->
+  let s' := accept vh ofp s m in
+  h_err s' = Some ([m_from m], EAbortNotice) /\ h_closes s' = 1 /\ result_class s' = 2.
+Proof. intro R. apply abort_notice_attribution_inv. eapply reachable_life; eassumption. Qed.
+
+(* a stored message that its round does not expect, or that the validity oracle rejects *)
+Definition bad_msg (sh : shape) (m : msg) : bool :=
+  if m_bcast m
+  then negb (sh_bcast sh (m_round m)) || negb (m_valid m)
+  else (match sh_p2p sh (m_round m) with NoP2P => true | _ => false end) || negb (m_valid m).
+
+Definition stored (s : hstate) (m : msg) : Prop := slot s (m_bcast m) (m_round m) (m_from m) = Some m.
+
+Definition blames_bad (s : hstate) (c : list party) : Prop :=
+  exists j m0, c = [j] /\ j <> h_self s /\ m_from m0 = j /\ stored s m0 /\ bad_msg (h_shape s) m0 = true.
+
+Lemma blames_bad_frame s s' c :
+  h_self s' = h_self s -> h_shape s' = h_shape s -> h_qb s' = h_qb s -> h_qp s' = h_qp s ->
+  blames_bad s c -> blames_bad s' c.
+Proof.
+  intros A B C D (j & m0 & H1 & H2 & H3 & H4 & H5). exists j, m0.
+  unfold stored in *. rewrite (slot_frame s s') by assumption. rewrite A, B. auto.
+Qed.
+
+Lemma verify_p2p_false s p : m_bcast p = false -> verify_p2p s p = false -> bad_msg (h_shape s) p = true.
+Proof.
+  intros Bp. unfold verify_p2p, bad_msg. rewrite Bp.
+  destruct (negb (existsb _ _)); [discriminate|].
+  destruct (_ && _); [discriminate|].
+  destruct (sh_p2p _ _); intro H; try reflexivity; rewrite H; reflexivity.
+Qed.
+
+Lemma verify_bcast_false s m :
+  wf_queues s -> m_bcast m = true -> verify_bcast s m = false ->
+  bad_msg (h_shape s) m = true
+  \/ exists p, qget (h_qp s) (m_round m) (m_from m) = Some p /\ bad_msg (h_shape s) p = true.
+Proof.
+  intros [_ W] Bm. unfold verify_bcast.
+  destruct (negb (existsb _ _)); [discriminate|].
+  destruct (sh_bcast (h_shape s) (m_round m)) eqn:Sb; cbn [negb].
+  2:{ intros _. left. unfold bad_msg. rewrite Bm, Sb. reflexivity. }
+  destruct (m_valid m) eqn:V; cbn [negb].
+  2:{ intros _. left. unfold bad_msg. rewrite Bm, V. apply orb_true_r. }
+  destruct (sh_p2p _ _); try discriminate;
+    (destruct (qget (h_qp s) (m_round m) (m_from m)) as [p|] eqn:Q; [|discriminate];
+     intro H; right; exists p; split; [reflexivity|];
+     apply verify_p2p_false; [apply (W _ _ _ Q)|exact H]).
+Qed.
+
+Lemma first_bad_blames s r j :
+  wf_queues s -> first_bad s r = Some j -> blames_bad s [j].
+Proof.
+  intros W F. pose proof (first_bad_in s r j F) as Hin. apply others_spec in Hin as [_ Hne].
+  unfold first_bad in F. destruct W as [Wb Wp].
+  destruct (sh_bcast (h_shape s) r).
+  - apply find_some in F as [_ F].
+    destruct (qget (h_qb s) r j) as [m0|] eqn:Q; [|discriminate].
+    apply negb_true_iff in F. destruct (Wb _ _ _ Q) as (E1 & E2 & E3).
+    destruct (verify_bcast_false s m0 (conj Wb Wp) E3 F) as [B|(p & Qp & B)].
+    + exists j, m0. unfold stored, slot. rewrite E1, E2, E3. auto.
+    + rewrite E1, E2 in Qp. destruct (Wp _ _ _ Qp) as (P1 & P2 & P3).
+      exists j, p. unfold stored, slot. rewrite P1, P2, P3. auto.
+  - apply find_some in F as [_ F].
+    destruct (qget (h_qp s) r j) as [m0|] eqn:Q; [|discriminate].
+    apply negb_true_iff in F. destruct (Wp _ _ _ Q) as (E1 & E2 & E3).
+    exists j, m0. unfold stored, slot. rewrite E1, E2, E3. repeat split; auto.
+    apply verify_p2p_false; assumption.
+Qed.
+
+Definition verify_blame_ok (s : hstate) : Prop := forall c, h_err s = Some (c, EVerify) -> blames_bad s c.
+
+Lemma fin_step_verify_blame vh ofp s :
+  wf_queues s /\ h_err s = None ->
+  match fin_step vh ofp s with FDone s' => verify_blame_ok s' | FCont s3 => wf_queues s3 /\ h_err s3 = None end.
+Proof.
+  intros [W E]. unfold fin_step, verify_blame_ok.
+  destruct (h_rt s); try (intros c Hc; congruence).
+  destruct (h_cur s =? 0); [intros c Hc; congruence|].
+  set (s1 := snd (received_all vh s)).
+  assert (E1 : h_err s1 = None) by (unfold s1; autorewrite with hdb; exact E).
+  assert (W1 : wf_queues s1) by (unfold wf_queues, s1; autorewrite with hdb; exact W).
+  destruct (negb (fst _)); [intros c Hc; congruence|].
+  destruct (negb (check_broadcast_hash s1)).
+  { intros c Hc. destruct (abort_err_cases s1 ([], EBroadcastHash)) as [X|X]; rewrite X in Hc; congruence. }
+  set (s2 := emit_all ofp s1 (round_outputs s1 (h_cur s1) (cur_bv s1))).
+  assert (E2 : h_err s2 = None) by (unfold s2; autorewrite with hdb; exact E1).
+  assert (W2 : wf_queues s2).
+  { assert (hinv s2 -> wf_queues s2) by (intros (_ & X & _); exact X).
+    assert (G : forall l s0, wf_queues s0 -> wf_queues (emit_all ofp s0 l)).
+    { induction l as [|o l IH]; intros s0 H0; cbn [emit_all]; [exact H0|]. apply IH.
+      unfold wf_queues. autorewrite with hdb. destruct (o_bcast o); [apply wf_store|]; exact H0. }
+    apply G, W1. }
+  destruct (h_rt s2); try (intros c Hc; congruence).
+  destruct (existsb _ _); [intros c Hc; congruence|].
+  destruct (_ =? 0).
+  { intros c Hc. rewrite abort_none_err in Hc. unfold set_res, advance in Hc. prjs in Hc. congruence. }
+  destruct (first_bad _ _) eqn:F; [|split; [exact W2|exact E2]].
+  intros c Hc.
+  destruct (abort_err_cases (advance s2 (next_round s1)) ([p], EVerify)) as [X|X]; rewrite X in Hc.
+  - inversion Hc; subst c.
+    apply (blames_bad_frame (advance s2 (next_round s1))); autorewrite with hdb; try reflexivity.
+    eapply first_bad_blames; [exact W2|exact F].
+  - unfold advance in Hc. prjs in Hc. congruence.
+Qed.
+
+Lemma finalize_verify_blame vh ofp f s :
+  wf_queues s -> h_err s = None -> verify_blame_ok (finalize vh ofp f s).
+Proof.
+  intros W E.
+  apply (finalize_ind vh ofp (fun s => wf_queues s /\ h_err s = None) verify_blame_ok); [| |auto].
+  - intros s0 [_ E0] c Hc. congruence.
+  - apply fin_step_verify_blame.
+Qed.
+
+Lemma verify_failure_blames_sender_inv vh ofp s m c :
+  wf_queues s -> h_err s = None ->
+  h_err (accept vh ofp s m) = Some (c, EVerify) -> blames_bad (accept vh ofp s m) c.
+Proof.
+  intros W E. unfold accept.
+  destruct (h_rt s); try congruence.
+  destruct (_ || _) eqn:G; [congruence|].
+  apply accept_guard_terminal in G as (C & T & D).
+  destruct (m_round m =? 0) eqn:R0.
+  { intro Hc. destruct (abort_err_cases s ([m_from m], EAbortNotice)) as [X|X]; rewrite X in Hc; congruence. }
+  apply Nat.eqb_neq in R0.
+  pose proof (wf_store s m W) as W1.
+  assert (E1 : h_err (store s m) = None) by (autorewrite with hdb; exact E).
+  destruct (negb _); [congruence|].
+  destruct (if m_bcast m then _ else _) eqn:V; [apply finalize_verify_blame; assumption|].
+  intro Hc. destruct (abort_err_cases (store s m) ([m_from m], EVerify)) as [X|X]; rewrite X in Hc; [|congruence].
+  inversion Hc; subst c.
+  apply (blames_bad_frame (store s m)); autorewrite with hdb; try reflexivity.
+  destruct (duplicate_false_slot s m D) as [Hq N]; [lia|].
+  pose proof (store_slot_new s m Hq N) as St.
+  apply can_accept_total_spec in C. destruct C as (C & _).
+  destruct (m_bcast m) eqn:Bm.
+  - destruct (verify_bcast_false (store s m) m W1 Bm V) as [B|(p & Qp & B)]; rewrite store_h_shape in B.
+    + exists (m_from m), m. unfold stored. rewrite Bm. autorewrite with hdb. auto.
+    + destruct W1 as [_ Wp]. destruct (Wp _ _ _ Qp) as (P1 & P2 & P3).
+      exists (m_from m), p. unfold stored, slot. rewrite P1, P2, P3. autorewrite with hdb. auto.
+  - exists (m_from m), m. unfold stored. rewrite Bm. autorewrite with hdb. repeat split; auto.
+    rewrite <- (store_h_shape s m). apply verify_p2p_false; assumption.
+Qed.
+
+Theorem verify_failure_blames_sender fixed vh ofp self n ssid proto sh s m c :
+  reachable fixed vh ofp self n ssid proto sh s ->
+  h_err s = None ->
+  h_err (accept vh ofp s m) = Some (c, EVerify) ->
+  blames_bad (accept vh ofp s m) c.
+Proof.
+  intros R. apply verify_failure_blames_sender_inv. apply reachable_hinv in R. apply R.
+Qed.
+
+(* corollary: a sender all of whose stored messages are valid and expected is never named by EVerify *)
+Theorem honest_sender_never_blamed_by_verify fixed vh ofp self n ssid proto sh s m c j :
+  reachable fixed vh ofp self n ssid proto sh s ->
+  h_err s = None ->
+  h_err (accept vh ofp s m) = Some (c, EVerify) ->
+  (forall m0, stored (accept vh ofp s m) m0 -> m_from m0 = j -> bad_msg (h_shape s) m0 = false) ->
+  ~ In j c.
+Proof.
+  intros R E Hc Hon Hin.
+  destruct (verify_failure_blames_sender fixed vh ofp self n ssid proto sh s m c R E Hc) as (j' & m0 & -> & _ & F & St & B).
+  destruct Hin as [<-|[]].
+  assert (Sh : h_shape (accept vh ofp s m) = h_shape s) by apply accept_static.
+  rewrite Sh in B. rewrite (Hon m0 St F) in B. discriminate.
+Qed.
+
+Theorem broadcast_hash_failure_names_nobody fixed vh ofp self n ssid proto sh s c :
+  reachable fixed vh ofp self n ssid proto sh s ->
+  h_err s = Some (c, EBroadcastHash) -> c = [].
+Proof.
+  intros R E. apply reachable_hinv in R. destruct R as (_ & _ & S). unfold err_shape in S. rewrite E in S. exact S.
+Qed.
+
+Theorem error_kinds_and_culprits fixed vh ofp self n ssid proto sh s c k :
+  reachable fixed vh ofp self n ssid proto sh s ->
+  h_err s = Some (c, k) ->
+  match k with
+  | EBroadcastHash => c = []
+  | EUser => c = [h_self s]
+  | EAbortNotice | EVerify => exists j, c = [j] /\ j <> h_self s
+  | _ => False
+  end.
+Proof.
+  intros R E. apply reachable_hinv in R. destruct R as (_ & _ & S). unfold err_shape in S. rewrite E in S. exact S.
+Qed.
+
+(* ------------------------------------------------------------------ *)
+(* Capacity of the out channel: when can a single Accept block?         *)
+(* ------------------------------------------------------------------ *)
+(* every round that has a queue expects something from the peers *)
+Definition busy_shape (sh : shape) : Prop :=
+  forall r, 2 <= r <= sh_final sh -> sh_bcast sh r = true \/ sh_p2p sh r <> NoP2P.
+
+(* no message of another party is queued for round K or later *)
+Definition quiet_from (s : hstate) (K : nat) : Prop :=
+  forall r j, K <= r -> j <> h_self s -> qget (h_qb s) r j = None /\ qget (h_qp s) r j = None.
+
+Lemma quiet_from_le s K K' : K <= K' -> quiet_from s K -> quiet_from s K'.
+Proof. intros L H r j Hr Hj. apply H; [lia|exact Hj]. Qed.
+
+Lemma quiet_frame s s' K :
+  h_self s' = h_self s -> h_qb s' = h_qb s -> h_qp s' = h_qp s -> quiet_from s K -> quiet_from s' K.
+Proof. unfold quiet_from. intros -> -> ->. auto. Qed.
+
+Lemma filter_ne_seq_out self : forall n a,
+  self < a \/ a + n <= self -> length (filter (fun j => negb (j =? self)) (seq a n)) = n.
+Proof.
+  induction n as [|n IH]; intros a H; cbn [seq filter length]; [reflexivity|].
+  destruct (a =? self) eqn:E; [apply Nat.eqb_eq in E; lia|].
+  cbn [negb length]. rewrite IH by lia. reflexivity.
+Qed.
+
+Lemma filter_ne_seq_in self : forall n a,
+  a <= self < a + n -> length (filter (fun j => negb (j =? self)) (seq a n)) = n - 1.
+Proof.
+  induction n as [|n IH]; intros a H; cbn [seq filter length]; [lia|].
+  destruct (a =? self) eqn:E.
+  - apply Nat.eqb_eq in E. cbn [negb]. rewrite filter_ne_seq_out by lia. lia.
+  - apply Nat.eqb_neq in E. cbn [negb length]. rewrite IH by lia. lia.
+Qed.
+
+Lemma others_length s : h_self s < h_n s -> length (others s) = h_n s - 1.
+Proof. intro H. unfold others. apply filter_ne_seq_in. lia. Qed.
+
+(* one round's Finalize puts at most n messages on the channel (n >= 2, self a party) *)
+Lemma round_outputs_length s r bv :
+  h_self s < h_n s -> 2 <= h_n s -> length (round_outputs s r bv) <= h_n s.
+Proof.
+  intros Hs Hn. unfold round_outputs.
+  destruct (sh_final _ <=? r); [cbn; lia|].
+  rewrite app_length.
+  assert (A : length (if sh_bcast (h_shape s) (S r) then [mkOut None (S r) true bv] else []) <= 1)
+    by (destruct (sh_bcast _ _); cbn; lia).
+  assert (B : length (match sh_p2p (h_shape s) (S r) with
+                      | NoP2P => []
+                      | P2PAll => [mkOut None (S r) false bv]
+                      | P2PEach => map (fun j => mkOut (Some j) (S r) false bv) (others s)
+                      end) <= h_n s - 1).
+  { destruct (sh_p2p _ _); cbn; try lia. rewrite map_length, others_length by exact Hs. lia. }
+  lia.
+Qed.
+
+Lemma round_outputs_final s r bv : sh_final (h_shape s) <= r -> round_outputs s r bv = [].
+Proof. intro H. unfold round_outputs. apply Nat.leb_le in H. rewrite H. reflexivity. Qed.
+
+Lemma emit_ok s o :
+  h_rt s = Running -> h_closes s = 0 -> h_pending s < capacity s ->
+  h_rt (emit s o) = Running /\ h_pending (emit s o) = S (h_pending s) /\ h_out (emit s o) = h_out s ++ [o].
+Proof.
+  intros Hr Hc Hp. unfold emit. rewrite Hr, Hc. change (0 <? 0) with false. cbv iota.
+  apply Nat.ltb_lt in Hp. rewrite Hp. prjs. auto.
+Qed.
+
+Lemma capacity_frame s s' : h_n s' = h_n s -> capacity s' = capacity s.
+Proof. unfold capacity. intros ->. reflexivity. Qed.
+
+Lemma emit_all_ok ofp l : forall s,
+  h_rt s = Running -> h_closes s = 0 -> h_pending s + length l <= capacity s ->
+  h_rt (emit_all ofp s l) = Running
+  /\ h_pending (emit_all ofp s l) = h_pending s + length l
+  /\ length (h_out (emit_all ofp s l)) = length (h_out s) + length l.
+Proof.
+  induction l as [|o l IH]; intros s Hr Hc Hp; cbn [emit_all length] in *.
+  - repeat split; auto.
+  - set (s1 := if o_bcast o then store s (own_bcast_msg ofp s o) else s).
+    assert (Hr1 : h_rt s1 = Running) by (unfold s1; destruct (o_bcast o); autorewrite with hdb; exact Hr).
+    assert (Hc1 : h_closes s1 = 0) by (unfold s1; destruct (o_bcast o); autorewrite with hdb; exact Hc).
+    assert (Hp1 : h_pending s1 = h_pending s) by (unfold s1; destruct (o_bcast o); autorewrite with hdb; reflexivity).
+    assert (Ho1 : h_out s1 = h_out s) by (unfold s1; destruct (o_bcast o); autorewrite with hdb; reflexivity).
+    assert (Hk1 : capacity s1 = capacity s) by (apply capacity_frame; unfold s1; destruct (o_bcast o); autorewrite with hdb; reflexivity).
+    destruct (emit_ok s1 o Hr1 Hc1) as (A & B & C); [lia|].
+    destruct (IH (emit s1 o)) as (A' & B' & C'); auto.
+    + autorewrite with hdb. exact Hc1.
+    + rewrite (capacity_frame s1 (emit s1 o)) by (autorewrite with hdb; reflexivity). lia.
+    + repeat split; auto; [lia|]. rewrite C', C, app_length, Ho1. cbn. lia.
+Qed.
+
+Lemma qget_cons_ne q r j r' j' m : j' <> j -> qget ((r', j', m) :: q) r j = qget q r j.
+Proof.
+  intro H. cbn. destruct (j' =? j) eqn:E; [apply Nat.eqb_eq in E; contradiction|].
+  rewrite andb_false_r. reflexivity.
+Qed.
+
+Lemma store_own_quiet s m K : m_from m = h_self s -> quiet_from s K -> quiet_from (store s m) K.
+Proof.
+  intros F Q r j Hr Hj. autorewrite with hdb in Hj. destruct (Q r j Hr Hj) as [A B].
+  unfold store, queue_of. destruct (negb _); [auto|].
+  destruct (m_bcast m).
+  - destruct (qget (h_qb s) (m_round m) (m_from m)); [auto|]. prjs. rewrite qget_cons_ne by congruence. auto.
+  - destruct (qget (h_qp s) (m_round m) (m_from m)); [auto|]. prjs. rewrite qget_cons_ne by congruence. auto.
+Qed.
+
+Lemma store_low_quiet s m K : m_round m < K -> quiet_from s K -> quiet_from (store s m) K.
+Proof.
+  intros F Q r j Hr Hj. autorewrite with hdb in Hj. destruct (Q r j Hr Hj) as [A B].
+  assert (N : forall q, qget ((m_round m, m_from m, m) :: q) r j = qget q r j).
+  { intro q. cbn. destruct (m_round m =? r) eqn:E; [apply Nat.eqb_eq in E; lia|reflexivity]. }
+  unfold store, queue_of. destruct (negb _); [auto|].
+  destruct (m_bcast m).
+  - destruct (qget (h_qb s) (m_round m) (m_from m)); [auto|]. prjs. rewrite N. auto.
+  - destruct (qget (h_qp s) (m_round m) (m_from m)); [auto|]. prjs. rewrite N. auto.
+Qed.
+
+Lemma emit_all_quiet ofp l K : forall s, quiet_from s K -> quiet_from (emit_all ofp s l) K.
+Proof.
+  induction l as [|o l IH]; intros s Q; cbn [emit_all]; [exact Q|].
+  apply IH. apply (quiet_frame (if o_bcast o then store s (own_bcast_msg ofp s o) else s)); autorewrite with hdb; try reflexivity.
+  destruct (o_bcast o); [apply store_own_quiet; [reflexivity|]|]; exact Q.
+Qed.
+
+Lemma view_of_none s r j : In j (all_parties s) -> qget (h_qb s) r j = None -> view_of s r = None.
+Proof.
+  unfold view_of. generalize (all_parties s). induction l as [|a l IH]; intros Hin Hq; [contradiction|].
+  cbn [fold_right]. destruct Hin as [->|Hin].
+  - rewrite Hq. reflexivity.
+  - rewrite (IH Hin Hq). destruct (qget (h_qb s) r a); reflexivity.
+Qed.
+
+(* with nothing from the peers queued for the current round, the round cannot be finalized *)
+Lemma received_all_false vh s :
+  h_self s < h_n s -> 2 <= h_n s -> busy_shape (h_shape s) ->
+  2 <= h_cur s <= sh_final (h_shape s) -> quiet_from s (h_cur s) ->
+  fst (received_all vh s) = false.
+Proof.
+  intros Hs Hn Busy Hc Q.
+  assert (Hq : has_queue s (h_cur s) = true).
+  { unfold has_queue. apply andb_true_iff. split; apply Nat.leb_le; lia. }
+  assert (exists j, j < h_n s /\ j <> h_self s) as (j & Hj & Hne).
+  { destruct (Nat.eq_dec (h_self s) 0); [exists 1|exists 0]; lia. }
+  destruct (Q (h_cur s) j (le_n _) Hne) as [Qb Qp].
+  unfold received_all. rewrite Hq. cbn [negb andb].
+  destruct (sh_bcast (h_shape s) (h_cur s)) eqn:Sb.
+  - rewrite (view_of_none s (h_cur s) j); [reflexivity| |exact Qb].
+    unfold all_parties. apply in_seq. lia.
+  - rewrite andb_false_r.
+    destruct (Busy (h_cur s) Hc) as [X|X]; [congruence|].
+    assert (F : forallb (fun j0 => match qget (h_qp s) (h_cur s) j0 with Some _ => true | None => false end) (others s) = false).
+    { destruct (forallb _ _) eqn:F; [|reflexivity].
+      rewrite forallb_forall in F. specialize (F j). rewrite Qp in F. symmetry. apply F. apply others_spec. auto. }
+    destruct (sh_p2p _ _); [congruence| |]; cbn [fst]; exact F.
+Qed.
+
+(* the step invariant: a budget of [k] rounds that may still be finalized in this call *)
+Definition cap_inv (L : nat) (s : hstate) : Prop :=
+  h_rt s = Running /\ h_closes s = 0 /\ 1 <= h_cur s
+  /\ h_self s < h_n s /\ 2 <= h_n s /\ busy_shape (h_shape s)
+  /\ exists k, (h_cur s = 1 -> 1 <= k)
+               /\ quiet_from s (h_cur s + k)
+               /\ h_pending s + k * h_n s <= capacity s
+               /\ length (h_out s) + k * h_n s <= L.
+
+Definition cap_post (L : nat) (s : hstate) : Prop :=
+  h_rt s = Running /\ length (h_out s) <= L + 1.
+
+Lemma abort_out_length s e : length (h_out (abort s e)) <= length (h_out s) + 1.
+Proof.
+  unfold abort, close_out, set_rt. dmatch; cbn; dmatch; cbn; try rewrite app_length; cbn; lia.
+Qed.
+
+Lemma abort_running s e : h_rt s = Running -> h_closes s = 0 -> h_rt (abort s e) = Running.
+Proof.
+  intros Hr Hc. destruct e as [ce|].
+  - apply abort_some_running; assumption.
+  - apply abort_none_running; assumption.
+Qed.
+
+Lemma fin_step_cap vh ofp L s :
+  cap_inv L s -> match fin_step vh ofp s with FDone s' => cap_post L s' | FCont s3 => cap_inv L s3 end.
+Proof.
+  intros (Hr & Hc & Hcur & Hs & Hn & Busy & k & Hk1 & Q & Hp & Ho).
+  unfold fin_step. rewrite Hr.
+  destruct (h_cur s =? 0) eqn:E0; [apply Nat.eqb_eq in E0; lia|].
+  set (s1 := snd (received_all vh s)).
+  assert (Hr1 : h_rt s1 = Running) by (unfold s1; autorewrite with hdb; exact Hr).
+  assert (Hc1 : h_closes s1 = 0) by (unfold s1; autorewrite with hdb; exact Hc).
+  assert (Ho1 : h_out s1 = h_out s) by (unfold s1; autorewrite with hdb; reflexivity).
+  assert (Hp1 : h_pending s1 = h_pending s) by (unfold s1; autorewrite with hdb; reflexivity).
+  assert (Hcur1 : h_cur s1 = h_cur s) by (unfold s1; autorewrite with hdb; reflexivity).
+  assert (Hn1 : h_n s1 = h_n s) by (unfold s1; autorewrite with hdb; reflexivity).
+  assert (Hs1 : h_self s1 = h_self s) by (unfold s1; autorewrite with hdb; reflexivity).
+  assert (Hsh1 : h_shape s1 = h_shape s) by (unfold s1; autorewrite with hdb; reflexivity).
+  assert (Q1 : quiet_from s1 (h_cur s + k)) by (revert Q; apply quiet_frame; unfold s1; autorewrite with hdb; reflexivity).
+  destruct (negb (fst (received_all vh s))) eqn:RA.
+  { split; [exact Hr1|]. rewrite Ho1. lia. }
+  apply negb_false_iff in RA.
+  destruct (negb (check_broadcast_hash s1)).
+  { split; [apply abort_running; assumption|].
+    pose proof (abort_out_length s1 (Some ([], EBroadcastHash))). rewrite Ho1 in *. lia. }
+  (* how many messages does this round emit? *)
+  set (outs := round_outputs s1 (h_cur s1) (cur_bv s1)).
+  assert (Hlen : length outs <= (if sh_final (h_shape s) <=? h_cur s then 0 else h_n s) /\
+                 (sh_final (h_shape s) <=? h_cur s = false -> 1 <= k)).
+  { destruct (sh_final (h_shape s) <=? h_cur s) eqn:Fin.
+    - apply Nat.leb_le in Fin. unfold outs. rewrite round_outputs_final by (rewrite Hsh1, Hcur1; exact Fin).
+      split; [cbn; lia|discriminate].
+    - apply Nat.leb_gt in Fin. split.
+      + unfold outs. rewrite <- Hn1. apply round_outputs_length; lia.
+      + intros _. destruct k as [|k]; [|lia]. exfalso.
+        assert (2 <= h_cur s) by (destruct (Nat.eq_dec (h_cur s) 1) as [X|X]; [specialize (Hk1 X); lia|lia]).
+        rewrite Nat.add_0_r in Q.
+        rewrite (received_all_false vh s) in RA; [discriminate|assumption..|lia|exact Q]. }
+  destruct Hlen as [Hlen Hk].
+  assert (Hbudget : length outs <= k * h_n s).
+  { destruct (sh_final (h_shape s) <=? h_cur s); [lia|]. specialize (Hk eq_refl). nia. }
+  destruct (emit_all_ok ofp outs s1 Hr1 Hc1) as (Hr2 & Hp2 & Ho2).
+  { rewrite (capacity_frame s s1) by exact Hn1. lia. }
+  set (s2 := emit_all ofp s1 outs) in *.
+  rewrite Hr2.
+  assert (Hc2 : h_closes s2 = 0) by (unfold s2; autorewrite with hdb; exact Hc1).
+  destruct (existsb _ _).
+  { split; [exact Hr2|]. rewrite Ho2, Ho1. lia. }
+  assert (Hnr : next_round s1 = if sh_final (h_shape s) <=? h_cur s then 0 else S (h_cur s))
+    by (unfold next_round; rewrite Hsh1, Hcur1; reflexivity).
+  destruct (sh_final (h_shape s) <=? h_cur s) eqn:Fin; rewrite Hnr.
+  - (* last round: result, channel closed *)
+    cbn [Nat.eqb].
+    split; [apply abort_running; [exact Hr2|exact Hc2]|].
+    pose proof (abort_out_length (set_res (advance s2 0)) None) as X.
+    change (h_out (set_res (advance s2 0))) with (h_out s2) in X. rewrite Ho2, Ho1 in X. lia.
+  - specialize (Hk eq_refl). cbn [Nat.eqb].
+    destruct (first_bad _ _).
+    + split; [apply abort_running; [exact Hr2|exact Hc2]|].
+      pose proof (abort_out_length (advance s2 (S (h_cur s))) (Some ([p], EVerify))) as X.
+      change (h_out (advance s2 (S (h_cur s)))) with (h_out s2) in X. rewrite Ho2, Ho1 in X. nia.
+    + assert (Hn2 : h_n s2 = h_n s) by (unfold s2; autorewrite with hdb; exact Hn1).
+      assert (Hs2 : h_self s2 = h_self s) by (unfold s2; autorewrite with hdb; exact Hs1).
+      assert (Hsh2 : h_shape s2 = h_shape s) by (unfold s2; autorewrite with hdb; exact Hsh1).
+      unfold cap_inv, advance, capacity. prjs. rewrite Hn2, Hs2, Hsh2.
+      split; [exact Hr2|]. split; [exact Hc2|]. split; [lia|]. split; [exact Hs|]. split; [exact Hn|].
+      split; [exact Busy|].
+      exists (k - 1). split; [lia|]. split; [|split].
+      * replace (S (h_cur s) + (k - 1)) with (h_cur s + k) by lia.
+        intros r j Hrr Hj. prjs. prjs in Hj.
+        apply (emit_all_quiet ofp outs (h_cur s + k) s1 Q1 r j Hrr). rewrite <- Hs2 in Hj. exact Hj.
+      * rewrite Hp2, Hp1. unfold capacity in Hp. nia.
+      * rewrite Ho2, Ho1. nia.
+Qed.
+
+(* out_capacity, finalize level: if no peer message is queued for round cur+k or later, a call finalizes at
+   most k rounds, puts at most k*n round messages (plus possibly one abort notice) on the channel, and does
+   not block provided the channel has room for k*n messages *)
+Lemma finalize_capacity vh ofp L f s : cap_inv L s -> cap_post L (finalize vh ofp f s).
+Proof.
+  apply (finalize_ind vh ofp (cap_inv L) (cap_post L)); [|apply fin_step_cap].
+  intros s0 (Hr & _ & _ & _ & _ & _ & k & _ & _ & _ & Ho). split; [exact Hr|lia].
+Qed.
+
+(* the peers' queue slots and the round counter only move forward inside finalize *)
+Definition grows (s0 s : hstate) : Prop :=
+  h_self s = h_self s0 /\ h_cur s0 <= h_cur s
+  /\ (forall r j, j <> h_self s0 ->
+        qget (h_qb s) r j = qget (h_qb s0) r j /\ qget (h_qp s) r j = qget (h_qp s0) r j).
+
+Lemma grows_frame s0 s s' :
+  h_self s' = h_self s -> h_cur s' = h_cur s -> h_qb s' = h_qb s -> h_qp s' = h_qp s -> grows s0 s -> grows s0 s'.
+Proof. unfold grows. intros -> -> -> ->. auto. Qed.
+
+Lemma grows_quiet s0 s K : grows s0 s -> quiet_from s0 K -> quiet_from s K.
+Proof.
+  intros (A & _ & C) Q r j Hr Hj. rewrite A in Hj. destruct (C r j Hj) as [-> ->]. apply Q; assumption.
+Qed.
+
+Lemma emit_all_others ofp l r j : forall s,
+  j <> h_self s -> qget (h_qb (emit_all ofp s l)) r j = qget (h_qb s) r j.
+Proof.
+  induction l as [|o l IH]; intros s Hj; cbn [emit_all]; [reflexivity|].
+  rewrite IH by (destruct (o_bcast o); autorewrite with hdb; exact Hj).
+  autorewrite with hdb. destruct (o_bcast o); [|reflexivity].
+  unfold store, queue_of. cbn [own_bcast_msg m_bcast m_round m_from].
+  destruct (negb _); [reflexivity|].
+  destruct (qget (h_qb s) (o_round o) (h_self s)); [reflexivity|]. prjs.
+  apply qget_cons_ne. congruence.
+Qed.
+
+Lemma fin_step_grows vh ofp s0 s :
+  grows s0 s /\ 1 <= h_cur s ->
+  match fin_step vh ofp s with
+  | FDone s' => terminal s' = true \/ grows s0 s'
+  | FCont s3 => grows s0 s3 /\ 1 <= h_cur s3
+  end.
+Proof.
+  intros [G Hc]. unfold fin_step.
+  destruct (h_rt s); try (right; exact G).
+  destruct (h_cur s =? 0); [right; exact G|].
+  assert (G1 : grows s0 (snd (received_all vh s))) by (revert G; apply grows_frame; autorewrite with hdb; reflexivity).
+  assert (Hc1 : h_cur (snd (received_all vh s)) = h_cur s) by (autorewrite with hdb; reflexivity).
+  assert (Hs1 : h_self (snd (received_all vh s)) = h_self s) by (autorewrite with hdb; reflexivity).
+  set (s1 := snd (received_all vh s)) in *.
+  destruct (negb (fst _)); [right; exact G1|].
+  destruct (negb (check_broadcast_hash s1)).
+  { right. revert G1. apply grows_frame; autorewrite with hdb; reflexivity. }
+  set (s2 := emit_all ofp s1 (round_outputs s1 (h_cur s1) (cur_bv s1))).
+  assert (G2 : grows s0 s2).
+  { destruct G1 as (A & B & C). unfold s2. split; [autorewrite with hdb; exact A|].
+    split; [autorewrite with hdb; exact B|].
+    intros r j Hj. rewrite emit_all_others by congruence. autorewrite with hdb. apply C, Hj. }
+  destruct (h_rt s2); try (right; exact G2).
+  destruct (existsb _ _); [right; exact G2|].
+  unfold next_round.
+  destruct (sh_final (h_shape s1) <=? h_cur s1).
+  - cbn [Nat.eqb]. left. unfold terminal. autorewrite with hdb. unfold set_res. prjs. apply orb_true_r.
+  - cbn [Nat.eqb].
+    assert (G3 : grows s0 (advance s2 (S (h_cur s1)))).
+    { destruct G2 as (A & B & C). unfold advance, grows. prjs. repeat split; try apply C; auto.
+      unfold s2 in B. autorewrite with hdb in B. lia. }
+    destruct (first_bad _ _).
+    + right. revert G3. apply grows_frame; autorewrite with hdb; reflexivity.
+    + split; [exact G3|]. unfold advance. prjs. lia.
+Qed.
+
+Lemma finalize_grows vh ofp f s :
+  1 <= h_cur s -> terminal (finalize vh ofp f s) = true \/ grows s (finalize vh ofp f s).
+Proof.
+  intro Hc.
+  apply (finalize_ind vh ofp (fun x => grows s x /\ 1 <= h_cur x) (fun x => terminal x = true \/ grows s x)).
+  - intros x [G _]. right. exact G.
+  - apply fin_step_grows.
+  - split; [|exact Hc]. repeat split; auto.
+Qed.
+
+Lemma accept_grows vh ofp s m K :
+  1 <= h_cur s -> quiet_from s K -> m_round m < K ->
+  let s' := accept vh ofp s m in
+  terminal s' = true \/ (h_cur s <= h_cur s' /\ quiet_from s' K).
+Proof.
+  intros Hc Q Hm s'. subst s'. unfold accept.
+  destruct (h_rt s); try (right; split; [lia|exact Q]).
+  destruct (_ || _); [right; split; [lia|exact Q]|].
+  destruct (m_round m =? 0).
+  { right. autorewrite with hdb. split; [lia|]. revert Q. apply quiet_frame; autorewrite with hdb; reflexivity. }
+  pose proof (store_low_quiet s m K Hm Q) as Q1.
+  destruct (negb _); [right; autorewrite with hdb; split; [lia|exact Q1]|].
+  destruct (if m_bcast m then _ else _).
+  - destruct (finalize_grows vh ofp (fuel_of (store s m)) (store s m)) as [T|G]; [autorewrite with hdb; exact Hc|left; exact T|].
+    right. split; [|eapply grows_quiet; eassumption].
+    destruct G as (_ & B & _). autorewrite with hdb in B. exact B.
+  - right. autorewrite with hdb. split; [lia|]. revert Q1. apply quiet_frame; autorewrite with hdb; reflexivity.
+Qed.
+
+(* out_capacity, Accept level *)
+Theorem out_capacity vh ofp s m k :
+  life_ok s -> h_rt s = Running -> 1 <= h_cur s -> 1 <= k ->
+  h_self s < h_n s -> 2 <= h_n s -> busy_shape (h_shape s) ->
+  quiet_from s (h_cur s + k) -> m_round m < h_cur s + k ->
+  h_pending s + k * h_n s <= capacity s ->
+  let s' := accept vh ofp s m in
+  h_rt s' = Running /\ length (h_out s') <= length (h_out s) + k * h_n s + 1.
+Proof.
+  intros L Hr Hc Hk Hs Hn Busy Q Hm Hp s'. subst s'. unfold accept. rewrite Hr.
+  destruct (_ || _) eqn:G; [split; [exact Hr|lia]|].
+  apply accept_guard_terminal in G as (_ & T & _).
+  destruct (life_not_terminal s L T) as (Hcl & _ & _).
+  destruct (m_round m =? 0).
+  { split; [apply abort_running; assumption|].
+    pose proof (abort_out_length s (Some ([m_from m], EAbortNotice))). lia. }
+  set (s1 := store s m).
+  assert (Hr1 : h_rt s1 = Running) by (unfold s1; autorewrite with hdb; exact Hr).
+  assert (Hcl1 : h_closes s1 = 0) by (unfold s1; autorewrite with hdb; exact Hcl).
+  assert (Ho1 : h_out s1 = h_out s) by (unfold s1; autorewrite with hdb; reflexivity).
+  destruct (negb _); [split; [exact Hr1|rewrite Ho1; lia]|].
+  destruct (if m_bcast m then _ else _).
+  - destruct (finalize_capacity vh ofp (length (h_out s) + k * h_n s) (fuel_of s1) s1) as [A B]; [|split; [exact A|lia]].
+    unfold cap_inv, capacity, s1. autorewrite with hdb.
+    repeat split; try assumption.
+    exists k. split; [lia|]. split; [apply store_low_quiet; assumption|]. unfold capacity in Hp. split; lia.
+  - split; [apply abort_running; assumption|].
+    pose proof (abort_out_length s1 (Some ([m_from m], EVerify))). rewrite Ho1 in *. lia.
+Qed.
+
+(* ------------------------------------------------------------------ *)
+(* C17: no blocking in well-drained histories with honest-shaped traffic *)
+(* ------------------------------------------------------------------ *)
+(* honest-shaped traffic: every delivered message is for a round at most one ahead of the handler
+   (an honest peer needs this party's round-r message before it can send round r+1) *)
+Fixpoint peers_one_ahead (vh : nat -> list N -> N) (ofp : nat -> N) (s : hstate) (es : list api) : Prop :=
+  match es with
+  | [] => True
+  | e :: es' =>
+      match e with Accept m => m_round m <= S (h_cur s) | _ => True end
+      /\ peers_one_ahead vh ofp (api_step_drained true vh ofp s e) es'
+  end.
+
+Definition drained_inv (s : hstate) : Prop :=
+  life_ok s /\ h_rt s = Running /\ h_pending s = 0
+  /\ h_self s < h_n s /\ 2 <= h_n s /\ busy_shape (h_shape s)
+  /\ (terminal s = false -> 1 <= h_cur s /\ quiet_from s (h_cur s + 2)).
+
+Lemma drained_inv_step vh ofp s e :
+  drained_inv s ->
+  match e with Accept m => m_round m <= S (h_cur s) | _ => True end ->
+  drained_inv (api_step_drained true vh ofp s e).
+Proof.
+  intros (L & Hr & Hp & Hs & Hn & Busy & Hq) He.
+  unfold api_step_drained, drain_all.
+  set (s' := api_step true vh ofp s e).
+  assert (St : same_static s s') by apply api_step_static.
+  destruct St as (S1 & S2 & _ & _ & S5).
+  assert (L' : life_ok s') by (apply api_step_life; exact L).
+  assert (Main : h_rt s' = Running /\ (terminal s' = false -> 1 <= h_cur s' /\ quiet_from s' (h_cur s' + 2))).
+  { unfold s'. destruct e as [m| |k]; cbn [api_step].
+    - destruct (terminal s) eqn:T.
+      + rewrite terminal_noop by exact T. split; [exact Hr|]. intro; congruence.
+      + destruct (Hq eq_refl) as [Hc Q].
+        destruct (out_capacity vh ofp s m 2) as [A _]; try assumption; try lia.
+        { unfold capacity. lia. }
+        split; [exact A|]. intro T'.
+        destruct (accept_grows vh ofp s m (h_cur s + 2) Hc Q) as [X|[X Y]]; [lia|cbv zeta in X; congruence|].
+        cbv zeta in X, Y. split; [lia|]. revert Y. apply quiet_from_le. lia.
+    - unfold stop. rewrite Hr. destruct (terminal s) eqn:T.
+      + split; [exact Hr|]. intro; congruence.
+      + destruct (life_not_terminal s L T) as (Hcl & _ & _).
+        destruct (abort_some_running s ([h_self s], EUser) Hr Hcl) as (E & _ & R).
+        split; [exact R|]. unfold terminal. rewrite E. cbn. discriminate.
+    - split; [autorewrite with hdb; exact Hr|].
+      rewrite (terminal_eq s (drain k s)) by reflexivity. exact Hq. }
+  destruct Main as [Hr' Hq'].
+  unfold drained_inv. autorewrite with hdb.
+  rewrite (terminal_eq s' (drain (h_pending s') s')) by reflexivity.
+  rewrite S1, S2, S5.
+  split; [apply drain_life; exact L'|]. split; [exact Hr'|]. split; [lia|].
+  split; [exact Hs|]. split; [exact Hn|]. split; [exact Busy|].
+  intro T. destruct (Hq' T) as [A B]. split; [exact A|].
+  revert B. apply quiet_frame; reflexivity.
+Qed.
+
+Lemma drained_inv_init vh ofp self n ssid proto sh :
+  self < n -> 2 <= n -> busy_shape sh ->
+  drained_inv (drain_all (new_handler vh ofp self n ssid proto sh)).
+Proof.
+  intros Hs Hn Busy. unfold drain_all.
+  set (s' := new_handler vh ofp self n ssid proto sh).
+  pose proof (new_handler_static vh ofp self n ssid proto sh) as (S1 & S2 & _ & _ & S5). fold s' in S1, S2, S5.
+  cbn in S1, S2, S5.
+  assert (L' : life_ok s') by apply new_handler_life.
+  assert (C : cap_post n s').
+  { apply finalize_capacity. unfold cap_inv, capacity. cbn.
+    repeat split; try lia; try assumption.
+    exists 1. split; [lia|]. split; [|cbn; lia].
+    intros r j _ _. split; reflexivity. }
+  destruct C as [Hr' _].
+  unfold drained_inv. autorewrite with hdb.
+  rewrite (terminal_eq s' (drain (h_pending s') s')) by reflexivity.
+  rewrite S1, S2, S5.
+  split; [apply drain_life; exact L'|]. split; [exact Hr'|]. split; [lia|].
+  split; [exact Hs|]. split; [exact Hn|]. split; [exact Busy|].
+  intro T.
+  destruct (finalize_grows vh ofp (fuel_of (init_state self n ssid proto sh)) (init_state self n ssid proto sh)) as [X|G];
+    [cbn; lia|fold (new_handler vh ofp self n ssid proto sh) in X; fold s' in X; congruence|].
+  fold (new_handler vh ofp self n ssid proto sh) in G. fold s' in G.
+  split.
+  - destruct G as (_ & B & _). cbn in B. exact B.
+  - apply (quiet_frame s'); try reflexivity.
+    eapply grows_quiet; [exact G|]. intros r j _ _. split; reflexivity.
+Qed.
+
+Theorem no_block_when_drained vh ofp self n ssid proto sh es :
+  self < n -> 2 <= n -> busy_shape sh ->
+  let s0 := drain_all (new_handler vh ofp self n ssid proto sh) in
+  peers_one_ahead vh ofp s0 es ->
+  let s := run_api_drained true vh ofp s0 es in
+  h_rt s = Running /\ h_rt s <> BlockedOnSend.
+Proof.
+  intros Hs Hn Busy s0 H s.
+  assert (J : drained_inv s).
+  { subst s. pose proof (drained_inv_init vh ofp self n ssid proto sh Hs Hn Busy) as J0. fold s0 in J0.
+    revert H J0. generalize s0. clear s0.
+    induction es as [|e es IH]; intros s0 H J0; [exact J0|].
+    cbn [peers_one_ahead] in H. destruct H as [He H].
+    unfold run_api_drained. cbn [fold_left]. apply IH; [exact H|].
+    apply drained_inv_step; assumption. }
+  destruct J as (_ & Hr & _). split; [exact Hr|]. rewrite Hr. discriminate.
+Qed.
+
+(* ------------------------------------------------------------------ *)
+(* The Stop guard as found at the pinned commit (fixed = false)         *)
+(* ------------------------------------------------------------------ *)
+(* general form: on EVERY unfinished state Stop does nothing ... *)
+Lemma stop_v0_running_noop s : terminal s = false -> stop false s = s.
+Proof. intro T. unfold stop. rewrite T. destruct (h_rt s); reflexivity. Qed.
+
+(* ... and on every finished (closed) state it sends on the closed channel *)
+Lemma stop_v0_finished_panics s :
+  h_rt s = Running -> terminal s = true -> 0 < h_closes s -> h_rt (stop false s) = Panicked 2.
+Proof.
+  intros Hr T Hc. unfold stop, abort. rewrite Hr, T.
+  apply Nat.ltb_lt in Hc. rewrite Hc. unfold close_out. cbn. reflexivity.
+Qed.
+
+(* concrete witnesses: n = 2, two rounds, round 2 = one p2p message to all (the example/xor shape) *)
+Definition xor_shape : shape := mkShape 2 (fun _ => false) (fun r => if r =? 2 then P2PAll else NoP2P).
+Definition xor_msg (from : party) (r : nat) (valid : bool) : msg := mkMsg 7 9 from None r true false 0 5 valid.
+Definition xor_start vh ofp : hstate := new_handler vh ofp 0 2 7 9 xor_shape.
+
+Lemma xor_start_reachable fixed vh ofp : reachable fixed vh ofp 0 2 7 9 xor_shape (xor_start vh ofp).
+Proof. exists []. reflexivity. Qed.
+
+Theorem stop_v0_running_refuted vh ofp :
+  exists s, reachable false vh ofp 0 2 7 9 xor_shape s
+            /\ h_rt s = Running /\ terminal s = false
+            /\ stop false s = s
+            /\ result_class (stop false s) = 0 /\ h_closes (stop false s) = 0.
+Proof.
+  exists (xor_start vh ofp). split; [apply xor_start_reachable|].
+  vm_compute. repeat split.
+Qed.
+
+Theorem stop_v0_finished_panics_refuted vh ofp :
+  exists s, reachable false vh ofp 0 2 7 9 xor_shape s
+            /\ h_rt s = Running /\ terminal s = true /\ result_class s = 1
+            /\ h_rt (stop false s) = Panicked 2.
+Proof.
+  exists (run_api false vh ofp (xor_start vh ofp) [Accept (xor_msg 1 2 true)]).
+  split; [exists [Accept (xor_msg 1 2 true)]; reflexivity|].
+  vm_compute. repeat split.
+Qed.
+
+(* hence the lifecycle invariant fails for the guard as found *)
+Theorem lifecycle_inv_v0_refuted vh ofp :
+  exists s, reachable false vh ofp 0 2 7 9 xor_shape s /\ h_rt s = Panicked 2.
+Proof.
+  exists (run_api false vh ofp (xor_start vh ofp) [Accept (xor_msg 1 2 true); Stop]).
+  split; [exists [Accept (xor_msg 1 2 true); Stop]; reflexivity|].
+  vm_compute. reflexivity.
+Qed.
+
+(* ------------------------------------------------------------------ *)
+(* Blocking IS reachable when a peer pre-sends all later rounds         *)
+(* ------------------------------------------------------------------ *)
+(* n = 2, seven rounds, every round >= 2 expects one p2p message (no broadcast, so no hash to guess).
+   The peer first delivers its messages for rounds 3..7, then round 2: a single Accept then finalizes
+   rounds 2,3,4,5 (four messages fill the channel of capacity 2n = 4) and blocks in round 6. *)
+Definition chain_shape : shape := mkShape 7 (fun _ => false) (fun r => if 2 <=? r then P2PAll else NoP2P).
+Definition chain_msg (r : nat) : msg := mkMsg 7 9 1 None r true false 0 5 true.
+Definition presend : list api :=
+  [Accept (chain_msg 3); Accept (chain_msg 4); Accept (chain_msg 5); Accept (chain_msg 6); Accept (chain_msg 7);
+   Accept (chain_msg 2)].
+
+Lemma chain_shape_busy : busy_shape chain_shape.
+Proof.
+  intros r [H _]. right. cbn. destruct r as [|[|r]]; try lia. cbn. discriminate.
+Qed.
+
+Theorem block_reachable_with_presending_peer vh ofp :
+  let s0 := drain_all (new_handler vh ofp 0 2 7 9 chain_shape) in
+  0 < 2 /\ 2 <= 2 /\ busy_shape chain_shape
+  /\ h_rt s0 = Running /\ h_pending s0 = 0
+  /\ h_rt (run_api_drained true vh ofp s0 presend) = BlockedOnSend
+  /\ ~ peers_one_ahead vh ofp s0 presend.
+Proof.
+  intro s0. split; [lia|]. split; [lia|]. split; [apply chain_shape_busy|].
+  split; [vm_compute; reflexivity|]. split; [vm_compute; reflexivity|].
+  split; [vm_compute; reflexivity|].
+  intro H. cbn [peers_one_ahead presend] in H. destruct H as [_ [H _]].
+  revert H. vm_compute. lia.
+Qed.
+
+(* ------------------------------------------------------------------ *)
+(* Small concrete states used as non-vacuity examples                   *)
+(* ------------------------------------------------------------------ *)
+(* n = 3, three rounds, round 2 = broadcast + p2p to each, round 3 = broadcast only *)
+Definition ex_shape : shape :=
+  mkShape 3 (fun r => (r =? 2) || (r =? 3)) (fun r => if r =? 2 then P2PEach else NoP2P).
+Definition ex_vh : nat -> list N -> N := fun r _ => N.of_nat (100 + r).
+Definition ex_ofp : nat -> N := fun r => N.of_nat (200 + r).
+Definition ex_start : hstate := new_handler ex_vh ex_ofp 0 3 7 9 ex_shape.
+Definition ex_b (from : party) (r : nat) (bv : N) (valid : bool) : msg :=
+  mkMsg 7 9 from None r true true bv (N.of_nat (10 * r + from)) valid.
+Definition ex_p (from : party) (r : nat) (bv : N) (valid : bool) : msg :=
+  mkMsg 7 9 from (Some 0) r true false bv (N.of_nat (50 + 10 * r + from)) valid.
+(* a complete honest run of party 0 *)
+Definition ex_honest : list api :=
+  [Accept (ex_b 1 2 0 true); Accept (ex_p 1 2 0 true); Accept (ex_p 2 2 0 true); Drain 3; Accept (ex_b 2 2 0 true);
+   Accept (ex_b 1 3 102 true); Accept (ex_b 2 3 102 true)].
